@@ -12,2813 +12,1160 @@ Definition show_fres (r : fres) : string :=
   end.
 Definition check (rs : list rune) : string := digest (show_fres (format_res rs)).
 Definition full (rs : list rune) : string := show_fres (format_res rs).
-Eval vm_compute in ("<<<M3871>>>" ++ check (runes_of_ascii "  MetaData
-leftPad{Header
-
-    falsey,}
-    packet
-x_y_z {	@calculatedFrom(
-""`tick`""  )
-    @rightPad	// `tick` ""quote"" 'q'
-	('\x00'	)
-
-match 
-matchKey as
-    As
-    { [
-
-""CRC32"",""\n""]	/// triple
-	:
-
-    Logon
-,
-    [ 007	,""" ++ [28040; 24687]%N ++ runes_of_ascii """ 
-,""" ++ [28040; 24687]%N ++ runes_of_ascii """,  """ ++ [128512]%N ++ runes_of_ascii """
-    ,0123456789  ]
-
-:  //	t
-	x
-[
-1
-
-    ]: /// triple
-	i8i8 ,""`tick`"" :  u8x
-
-    ,
-	} ,int64	_x
-    `tab	here`
-    // trailing space 
-		,@rightPad (
-    )  char[	255
-
-] uint8x `a\`	, 
-string	string_ //x
-  ,
-    repeat	int16  packetx ,	// " ++ [27880; 37322]%N ++ runes_of_ascii "
-  @rightPad(
-
-    ' '
-) string string_
-    ,i16
-	asx @lengthOf(
-        // " ++ [128512]%N ++ runes_of_ascii " emoji
-      // trailing space 
-int)  `// not a comment` ,  float32 uint8x ,
-	i8	i64_
-@calculatedFrom( 
-""\n""
-    ) 
-	// packet A { u8 x, }
-    	,}
-    packet
-    T{ string_ 
-// a // b
-    // @lengthOf(
-@lengthOf(A )
-`{ , }`
-
-,@calculatedFrom(
-    """" ) 
-match Pad as
-u
-{	[ ""1"" 	 // " ++ [128512]%N ++ runes_of_ascii " emoji
-  ,""1""  ]  :
-body
-    ,[
-0123456789,	""a\\""
-,
-
-    /// triple
-  // trailing space 
-""" ++ [128512]%N ++ runes_of_ascii """, ""it's""
-	, ""it's""]:
-    lengthOf ,
-	""" ++ [128512]%N ++ runes_of_ascii """ :
-    A, [  0123456789
-
-// c
-	/// triple
-	, 3 ] :rootA
-	,
-    4294967296
-    :
-rootA } ,
-    string
-
-    metadata@lengthOf(
-A	) 
-
-// packet A { u8 x, }
-, @lengthOf( msg_type
-    )
-@rightPad(
-' ' 
-) @rightPad
-
-    (
-)
-f64
-
-u128
-
-@lengthOf(
-
-    rootA
-    /// triple
-  	// @lengthOf(
-    ) `{ , }`
-	,
-
-}
-packet int 
-{@tag(
-255 
-	// a // b
-    )
-
-@rightPad	( ' '  )repeat
-    char[ 10 
-] u128
-    ,
-@calculatedFrom(
-    ""\" ++ [233]%N ++ runes_of_ascii """
-    )
-    char[
-007
-    ]
-calculatedFrom ,
-
-    @rightPad  (
-    '\x00'  )repeat  zchar[ 
-007
-	] 
-i8i8  ,
-@calculatedFrom( ""// no comment"" ) char[]	x_y_z
-,
-zchar[ 
-
-// trailing space 
-	  0123456789 ] 
-msg_type@calculatedFrom(  ""a\""b""
-	)
-
-    ,
-
-    u8
-
-f32a
-
-    @lengthOf(
-rootA )
-
-    `crlf
-line`
-
-, zchar[
-    7// " ++ [128512]%N ++ runes_of_ascii " emoji
-    	]
-	msg_type
-
-@lengthOf(Header
-
-    ) `// not a comment`
-	,char[42]roots  `" ++ [233]%N ++ runes_of_ascii "` //
-
-, @lengthOf(
-    stringy
-
-    ) @lengthOf(As
-)
-
-    // trailing space 
-// " ++ [128512]%N ++ runes_of_ascii " emoji
-		zchar[7
-	] msg_type // " ++ [128512]%N ++ runes_of_ascii " emoji
-`{ , }` ,
-
-    }
-root packet
-
-u
-    { 	 // c
-  repeat uint64 As 
-,
-    }")).
-Eval vm_compute in ("<<<M271>>>" ++ check (runes_of_ascii "// " ++ [27880; 37322]%N ++ runes_of_ascii "
-options
-    {
-zchar // a // b
-= ""x y""
-; options1 = u16
-;} packet
-Pad{ Z9_@calculatedFrom(
-"""")`
-` , @tag( 42
-    ) //
-@tag( 00 ) @lengthOf( zchar	) match _x// packet A { u8 x, }
-as metadata	{
-007: As ""`tick`""// packet A { u8 x, }
-: lengthOf,255 :lengthOf ""a	b""
-// trailing space 
-// " ++ [27880; 37322]%N ++ runes_of_ascii "
-:
-Packet 255: a1
-    , // c
-[ 00 ,
-    0 , 10 ,	""a\\"" , ""it's"" ,
-10, 7	]
-: Foo , }
-    , match Header
-as  o{
-[// packet A { u8 x, }
-255 ]
-    : zchar ,0123456789 :leftPad
-    [	007	, 3 ] : leftPad , // c
-0: packetx
-, } , } MetaData
-    Pad { // packet A { u8 x, }
-} packet T
-    // packet A { u8 x, }
-    {
-    // " ++ [27880; 37322]%N ++ runes_of_ascii "
-    charz
-    @lengthOf(asx) `` , }
-packet
-matchKey
-{  @tag( 3
-) @calculatedFrom( ""a	b""
-/// triple
-// c
-)
-@calculatedFrom("""" ) pack	rootA
-    ,  repeat //	t
-leftPad `` , repeat uint32 Foo `u8 x,` , @calculatedFrom(
-""" ++ [233]%N ++ runes_of_ascii "t" ++ [233]%N ++ runes_of_ascii """) repeat char[ 65535 ] u , @lengthOf( _x )@lengthOf( u8x ) repeat zchar[ 0123456789 ] x
-, match i64_ // " ++ [27880; 37322]%N ++ runes_of_ascii "
-as falsey{ // trailing space 
-255 :
-f32a , ""{,}"" : x ,""\" ++ [233]%N ++ runes_of_ascii """	: matchKey
-,
-[	"""",
-    // trailing space 
-    ""{,}"" ,
-    10 , """ ++ [128512]%N ++ runes_of_ascii """
-// a // b
-// packet A { u8 x, }
-, ""a	b"", 0
-,
-""1"",65535
-]: len , ""\" ++ [233]%N ++ runes_of_ascii """ :
-    T
-, [ ""CRC32"" ,
-    // " ++ [128512]%N ++ runes_of_ascii " emoji
-    1 , ""// no comment""
-, 007,1 ,	""`tick`"", """ ++ [128512]%N ++ runes_of_ascii """
-]// packet A { u8 x, }
-: a1  },match
-x as
-As
-{
-    ""a	b"":	o , 007
-:MetaDataX  ,  [
-""a	b""
-]:
-falsey , ""// no comment""
-    : Z9_""packet"":
-    _x
-    // " ++ [128512]%N ++ runes_of_ascii " emoji
-    , },repeat rootA {	uint8 MetaDataX
-    @calculatedFrom(
-    ""abc""
-    ) ,
-    match // `tick` ""quote"" 'q'
-int as// a // b
-asx {	[10	,
-10 , ""`tick`""  , 00 , 4294967296 ]
-    :
-    o ,
-    ""CRC32"" :
-string_ , [ 0
-]
-:	roots 65535 :
-// " ++ [27880; 37322]%N ++ runes_of_ascii "
-// trailing space 
-_x //
-, ""it's"" : Pad, 4294967296 : Pad , }
-,	u16	chars
-`line1
-line2`
-, //x
-}
-    ,
-}")).
-Eval vm_compute in ("<<<M1092>>>" ++ check (runes_of_ascii "packet	crc {Logon  {u64 Z9_
-// " ++ [27880; 37322]%N ++ runes_of_ascii "
-// c
-@lengthOf(A
-) , f64 int,//
-match BodyLength as MetaDataX // a // b
-{
-""" ++ [28040; 24687]%N ++ runes_of_ascii """ :
-msg_type ,00 :
-falsey, 00 :
-tag // @lengthOf(
-,
-""it's"": options1, 007
-    //	t
-    : len ,65535 :
-    falsey , } ,	repeat char[] int  ,//x
-}, }
-root packet	repeatCount { }packet BodyLength{
-stringy // trailing space 
-{	len	`
-`,
-    }
-    ,  repeat i32 int // a // b
-,
-match Foo as crc
-// trailing space 
-/// triple
-{
-0: i8i8, 3 : // " ++ [27880; 37322]%N ++ runes_of_ascii "
-chars
-,
-}
-,repeat  x  { zchar[
-007 ]
-    chars
-,
-    repeat chars
-    // " ++ [27880; 37322]%N ++ runes_of_ascii "
-    {
-repeat stringy {x_y_z u128 , string options1 `two words`
-, char[  0123456789
-]body
-    `crlf
-line` ,  repeat int32 i64_
-, } ,
-char[ //x
-42]
-crc
-, Pad
-    `tab	here` , f32a
-{lengthOf f32a ,} , } ,} ,
-i8 stringy , f32a  {match body as body
-{
-""\" ++ [233]%N ++ runes_of_ascii """// packet A { u8 x, }
-:	u128	} ,
-    repeat
-string len
-    `a\`
-    , repeat As
-// c
-//	t
-asx `it's` , } , }	MetaData rootA {
-//
-//
-metadata metadata , A _x , u T , char[ // " ++ [128512]%N ++ runes_of_ascii " emoji
-3 ] a1 `line1
-line2` // " ++ [128512]%N ++ runes_of_ascii " emoji
-,
-zchar[ 4294967296  ] packetx
-    // @lengthOf(
-    `{ , }` , string
-Logon `" ++ [233]%N ++ runes_of_ascii "` ,  } packet BodyLength
-    {@calculatedFrom( /// triple
-""\n""
-    )
-int8
-    a1
-    @lengthOf( falsey
-) , //
-@calculatedFrom( ""\" ++ [233]%N ++ runes_of_ascii """)@tag(0123456789
-    ) lengthOf , @tag( 007
-    // c
-    ) //
-match Logon // " ++ [27880; 37322]%N ++ runes_of_ascii "
-as f32a
-// @lengthOf(
-/// triple
-{ 0 :
-zchar // @lengthOf(
-, } ,@lengthOf( i8i8 ) match options1
-    //	t
-    as string_ { [""a\""b"" , 00 , /// triple
-4294967296, 4294967296
-, ""a	b"",1 ] :
-A
-}
-,}
-")).
-Eval vm_compute in ("<<<M896>>>" ++ check (runes_of_ascii "MetaData
-falsey { char[] f32a
-`" ++ [28040; 24687; 31867; 22411]%N ++ runes_of_ascii "` , u8x len
-/// triple
-// " ++ [128512]%N ++ runes_of_ascii " emoji
-`" ++ [233]%N ++ runes_of_ascii "`, char[] uint8x , f32 trueish
-, char[ 10 ] len `two words`,
-    rootA  int
-, }
+Eval vm_compute in ("<<<M1632>>>" ++ check (runes_of_ascii "
 root
-packet
-    A{ Z9_, repeat MetaDataX
-    `it's` , @tag(
-007 )	repeat options1 A//	t
-,repeat x `line1
-line2` ,  MetaDataX
-    /// triple
-    @lengthOf( options1 ) `say ""hi""`	,
+
+    packet
+
+zchar  { repeatCount // a // b
+@lengthOf(
+	asx)
+
+, match
+
+    string_
+as
+	o 	 // @lengthOf(
+  {
+7  :packetx  ,
+
+    7
+:Pad
+
 }
-// trailing space 
-// " ++ [27880; 37322]%N ++ runes_of_ascii "
-root packet rootA{ @tag( 255
-) char[ 10 ]	Foo @lengthOf( metadata) ``
-//
+, 	 // packet A { u8 x, }
+	zchar[65535 
+]
+T@calculatedFrom(	/// triple
+""" ++ [128512]%N ++ runes_of_ascii """	) ,
+
+tag  @lengthOf( 	 // " ++ [27880; 37322]%N ++ runes_of_ascii "
+		u ) `crlf
+line`
+,@calculatedFrom( 
+
 // " ++ [128512]%N ++ runes_of_ascii " emoji
-,  @leftPad
-    (
-'\x00'
-) msg_type {
-//x
-// a // b
-float32 // packet A { u8 x, }
-Pad
-,
-    repeat uint32 Logon , },
-    @leftPad(
+  """")  _x
+	@calculatedFrom( // @lengthOf(
+
+""a	b""  )
+	`// not a comment`
+,match	Z9_ 
+as 
+float {  0123456789:calculatedFrom ,
+
+    ""{,}""
+
+    : u	//	t
+
+} ,@leftPad( ) @tag(255)@lengthOf(
+i8i8
+
+)match
+	tag
+    as trueish{ 
+4294967296
+
+:
+
+uint8x ,  [  //x
+65535
+]
+
+    : u8x , 10 :
+
+i64_ , """"	: metadata
+	}
+,  int64
+T ,  }
+    root packet len
+
+    { @tag(
+0 )
+Logon  , 
+@tag(
+255
+
+    ) repeat
+
+u64
+
+    packetx
+	`it's`	,
+
+    @tag(
+
+    4294967296
+
     )
-stringy
-@calculatedFrom(
-""" ++ [128512]%N ++ runes_of_ascii """) `" ++ [28040; 24687; 31867; 22411]%N ++ runes_of_ascii "`  , @tag( 4294967296 )	@tag( 4294967296 ) @lengthOf( // trailing space 
-i8i8 ) BodyLength { zchar[42 ] u128 , crc
-    {char[
-255] Z9_ @lengthOf( int	)
-// packet A { u8 x, }
+zchar[  007
+]
+
+    repeatCount `a\`
+, char[ 4294967296
+
+] 
+
 // " ++ [128512]%N ++ runes_of_ascii " emoji
-, } ,
-}
-, @tag(//x
-10	)zchar[ 3 ] //	t
-stringy @calculatedFrom( ""\n""
-) // " ++ [27880; 37322]%N ++ runes_of_ascii "
-, a1
-    calculatedFrom ,
-} packet // packet A { u8 x, }
-u8x {
-x_y_z@lengthOf(lengthOf ) `crlf
-line` , match	uint8x
-    as  repeatCount { [
-""a\""b""
-,
-""// no comment"" ] :
-    Header [ ""a\\""
-    ,// " ++ [27880; 37322]%N ++ runes_of_ascii "
-4294967296 ]: roots
-// " ++ [128512]%N ++ runes_of_ascii " emoji
-// " ++ [128512]%N ++ runes_of_ascii " emoji
-,
-// " ++ [128512]%N ++ runes_of_ascii " emoji
-// @lengthOf(
-42 : rootA ,
-    [
-1 , """" /// triple
-,""`tick`"" , ""a	b"" ] : tag
-,  ""1""
-    : u8x // a // b
-,
-    }, f32a`a\`
-    //x
+
+	// packet A { u8 x, }
+	asx 
+@calculatedFrom( ""it's"" 
+) ,
+
+    }root
+
+    packet
+
+asx {
+    uint16 options1@lengthOf(matchKey
+
+    ) 
+`it's`,
+}root  //
+	  packet Logon  {
+@lengthOf( 
+asx  )@calculatedFrom(
+
+    ""packet""  ) Z9_
+@calculatedFrom(	// " ++ [128512]%N ++ runes_of_ascii " emoji
+	""" ++ [28040; 24687]%N ++ runes_of_ascii """ )	, @tag(  007 
+    /// triple
+  )
+	zchar[0123456789
+]
+i64_
+
     ,
-@lengthOf( u8x  ) pack asx
-, uint64	leftPad , repeat char[ 0] Pad , }
-")).
-Eval vm_compute in ("<<<M3731>>>" ++ check (runes_of_ascii "options {
-    T = ""it's"";// trailing space 
-    Z9_ = ""\" ++ [233]%N ++ runes_of_ascii """
-    int = '\x00'
-    u8x = ""`tick`""
-    crc = ""packet"";
+    msg_type
+`line1
+line2` ,repeat
+zchar[	007] Pad `
+` ,falsey {	chars
+lengthOf ``, match 
+Header
+    as
+
+lengthOf 
+{""" ++ [233]%N ++ runes_of_ascii "t" ++ [233]%N ++ runes_of_ascii """ 
+:falsey 42
+
+    : uint8x 
+, [ 007
+,  ""abc""
+,
+	// c
+	// a // b
+	  ""abc"" ,  ""a\\""
+    ,	65535// c
+  ,
+""a\""b""
+,42
+,  ""{,}""] 
+:
+charz
+	}  , int64 //x
+	Foo 	 // c
+  ,
+
+Z9_
+@lengthOf( int ) `it's`
+	,
 }
 
-root packet string_ {
-    match charz as u {
-        // " ++ [128512]%N ++ runes_of_ascii " emoji
-        0123456789 : zchar,
-        42 : rootA,
-        007 : crc,
-        """ ++ [28040; 24687]%N ++ runes_of_ascii """ : Foo,
-        [007, ""x y""] : int,
-        // " ++ [27880; 37322]%N ++ runes_of_ascii "
+,  @rightPad(
+)// trailing space 
+  string
+As
+
+    @calculatedFrom( """ ++ [28040; 24687]%N ++ runes_of_ascii """)
+,  
+      // c
+match matchKey 
+as	repeatCount
+{
+4294967296	:	msg_type	, """ ++ [28040; 24687]%N ++ runes_of_ascii """
+
+:
+	zchar 
+3
+
+    :u8x , """"
+    :
+asx 
+// trailing space 
+// `tick` ""quote"" 'q'
+	, }	, 
+} ")).
+Eval vm_compute in ("<<<M379>>>" ++ check (runes_of_ascii "options {
+    StringPrefixLenType = u16;
+    ArrayPrefixLenType = u16;
+}
+
+packet SampleBinary {
+    uint16 MsgType `" ++ [28040; 24687; 31867; 22411]%N ++ runes_of_ascii "`,
+    u16 BodyLenght @lengthOf(Body) `" ++ [28040; 24687; 20307; 38271; 24230]%N ++ runes_of_ascii "`,
+    match MsgType as Body {
+        1 : Logon,
+        2 : Logout,
+        3 : Heartbeat,
+        4 : RiskControlRequest,
+        5 : RiskControlResponse,
     },
-    @tag(7)
-    repeat metadata,
-    string len @lengthOf(o) `crlf
-    line`,
-    repeat int32 falsey `
-    `,
-    @leftPad()
-    x @calculatedFrom(""// no comment"") `// not a comment`,
-    uint16 rootA,
-    @lengthOf(a1)
-    char calculatedFrom,
-    @tag(3)
-    zchar[65535] body,
+    @calculatedFrom(""CRC32"")
+    u32 Ckecksum `" ++ [26657; 39564; 21644]%N ++ runes_of_ascii "`,
 }
 
 packet Logon {
-    @leftPad()
-    @tag(7)
-    char u128 `say ""hi""`,
-    @tag(10)
-    char[42] roots,
-}
-
-root packet i64_ {
-    repeat _x {
-        repeat MetaDataX o,
-    },
-    u128 {
-        asx {
-            u8 a1,
-            repeat As,// a // b
-        },
-    },
-    int16 Foo,
-    u64 asx `
-    `,
-    u8x @lengthOf(crc),
-    @calculatedFrom(""CRC32"")
-    @lengthOf(body)
-    @tag(7)
-    falsey body `{ , }`,
-    MetaDataX {
-        trueish MetaDataX `tab	here`,
-        char[3] i8i8 @calculatedFrom(""" ++ [128512]%N ++ runes_of_ascii """) `" ++ [233]%N ++ runes_of_ascii "`,
-    },
-}
-
-options {
-    _x = false
-    _x = char[0123456789]
-    repeatCount = ' '
-    _x = ""packet"";
-}")).
-Eval vm_compute in ("<<<M557>>>" ++ check (runes_of_ascii "packet falsey
-{ repeat
-    zchar[ 0  ]
-    x_y_z `it's`, repeat char[] MetaDataX
-`u8 x,` ,
-@rightPad
-// trailing space 
-// trailing space 
-( )
-    match i8i8 as
-    charz{ [ 4294967296, 00 ]: crc
-, } ,repeat
-    string u8x `` ,
-Pad , @lengthOf(// c
-u128 )  @tag( 65535 )
-//	t
-// " ++ [128512]%N ++ runes_of_ascii " emoji
-tag body
-    // c
-    , } packet As  {
-    @calculatedFrom( ""// no comment""
-) repeat uint64
-msg_type
-    //	t
-    `two words`
-, @tag(007 )
-    @calculatedFrom(
-""`tick`""//x
-)@rightPad (	'\x00' //
-) int32	repeatCount, repeat	repeatCount	Pad
-, x
-    MetaDataX
-    `a\`	,char[	1 ] uint8x `u8 x,` , @calculatedFrom(
-    """" ) @calculatedFrom( ""// no comment"" )@tag(3) repeat i64// trailing space 
-trueish
-/// triple
-// `tick` ""quote"" 'q'
-, @lengthOf( MetaDataX
-    )
-Z9_, }  MetaData Logon
-    /// triple
-    {  i8i8 matchKey , u64
-i8i8
-, // trailing space 
-options1 zchar
-    // " ++ [128512]%N ++ runes_of_ascii " emoji
-    `" ++ [28040; 24687; 31867; 22411]%N ++ runes_of_ascii "` ,}
-//
-/// triple
-root	packet matchKey
-    /// triple
-    { T matchKey //	t
-, repeat	uint64
-    // packet A { u8 x, }
-    crc
-`" ++ [28040; 24687; 31867; 22411]%N ++ runes_of_ascii "`	, repeat
-    zchar[ 0123456789 ]	i8i8 ,string len//	t
-, } MetaData x_y_z
-/// triple
-// a // b
-{
-    i8i8 i64_
-, }
-
-")).
-Eval vm_compute in ("<<<M522>>>" ++ check (runes_of_ascii "root packet i64_
-// " ++ [27880; 37322]%N ++ runes_of_ascii "
-// a // b
-{/// triple
-lengthOf {// c
-T	{/// triple
-zchar tag ,match
-//
-// `tick` ""quote"" 'q'
-body
-    //	t
-    as
-    //x
-    falsey{00 :
-BodyLength
-    , [ 10 , 0,""1""	, 0123456789 , ""a\\"" ,""`tick`"",
-    """",
-    4294967296 ]
-    :
-stringy // c
-, // trailing space 
-"""" : // " ++ [128512]%N ++ runes_of_ascii " emoji
-trueish
-, // packet A { u8 x, }
-[""CRC32"" , 00 , 10
-,
-    1  ] :
-int , } , i8 T ,
-    // `tick` ""quote"" 'q'
-    } /// triple
-, msg_type{ int64 u ,
-}
-,match rootA//x
-as i64_ {
-    7
-: uint8x ,} ,
-} ,
-repeat// `tick` ""quote"" 'q'
-calculatedFrom //x
-{
-Pad T,
-    repeatCount
-    int , i16
-    crc @calculatedFrom( ""packet""
-) `` ,
-    match
-// `tick` ""quote"" 'q'
-// packet A { u8 x, }
-u128
-as
-As { """" : crc,
-[ 65535 , 4294967296 , 007
-    ,
-""a	b""
-, 10 // `tick` ""quote"" 'q'
-]
-    : rootA
-, } , } ,
-    zchar[4294967296 ]  u
-,
-repeat uint16
-    string_ `a\`	, } root
-packet A{	match Logon as asx { [	3 ,	""a	b""
-] : MetaDataX ,
-    0
-: lengthOf ,""packet""
-:
-// packet A { u8 x, }
-// " ++ [27880; 37322]%N ++ runes_of_ascii "
-u8x,	255 : repeatCount , [00 ,""""  ] :
-charz
-,
-["""" ]:msg_type, }  ,}
-")).
-Eval vm_compute in ("<<<M3755>>>" ++ check (runes_of_ascii "// c
-packet options1 {
-    roots @lengthOf(zchar),
-    @calculatedFrom(""" ++ [128512]%N ++ runes_of_ascii """)
-    uint64 matchKey,
-    @tag(42)
-    i64 Logon @lengthOf(i64_) `doc`,
-    @calculatedFrom(""a\""b"")
-    A,
-    @calculatedFrom(""it's"")
-    repeat Pad ``,
-    @tag(7)
-    zchar[00] trueish `" ++ [233]%N ++ runes_of_ascii "`,
-    repeat options1 {
-        repeatCount {
-            Header,
-            char[7] Logon `a\`,/// triple
-        },
-    },
-    char[1] int `doc`,// a // b
-    @calculatedFrom("""")
-    @calculatedFrom(""a	b"")
-    @lengthOf(packetx)
-    msg_type {
-        string calculatedFrom `{ , }`,
-        zchar @calculatedFrom(""" ++ [28040; 24687]%N ++ runes_of_ascii """),
-        uint8 o `doc`,
-        f32a,
-    },//x
-}
-
-MetaData Z9_ {
-    char A,
-}
-
-packet options1 {
-    msg_type {
-        chars,
-        zchar[3] crc `doc`,
-    },
-    @lengthOf(crc)
-    @tag(10)
-    @lengthOf(asx)
-    zchar[10] Header @calculatedFrom(""a\\"") `u8 x,`,
-}
-
-packet int {
-    string x_y_z,
-    @calculatedFrom(""\" ++ [233]%N ++ runes_of_ascii """)
-    match pack as roots {
-        65535 : options1,
-        // @lengthOf(
-    },
-}")).
-Eval vm_compute in ("<<<M4403>>>" ++ check (runes_of_ascii "packet leftPad {
-}
-
-packet u {
-    @leftPad(' ')
-    char[65535] leftPad,
-    int8 packetx,
-    string stringy `crlf
-        line`,
-    @leftPad(' ')
-    // " ++ [128512]%N ++ runes_of_ascii " emoji
-    i64 x @lengthOf(u) `" ++ [28040; 24687; 31867; 22411]%N ++ runes_of_ascii "`,
-    @lengthOf(pack)
-    // a // b
-    //
-    u64 asx @lengthOf(repeatCount) `u8 x,`,
-    o A,
-}
-
-root packet charz {
-    char[] repeatCount @lengthOf(tag) ``,
-    repeat pack `a\`,
-    @calculatedFrom(""// no comment"")
-    T {
-        string rootA @calculatedFrom(""{,}""),
-    },
-    repeat As Foo,
-    char[3] trueish,
-    @calculatedFrom("""")
-    @lengthOf(metadata)
     @leftPad('0')
-    repeat u64 float `{ , }`,
-    stringy {
-        // packet A { u8 x, }
-        // c
-        metadata {
-            u8 f32a `two words`,
-            repeat char[007] f32a `
-                        `,
-        },
-        u32 asx @calculatedFrom(""" ++ [233]%N ++ runes_of_ascii "t" ++ [233]%N ++ runes_of_ascii """),
-        float64 i8i8,//x
-    },
-    // c
-    // " ++ [27880; 37322]%N ++ runes_of_ascii "
-    match lengthOf as zchar {
-        00 : o,
-    },
-}")).
-Eval vm_compute in ("<<<M4249>>>" ++ check (runes_of_ascii "  root 
-packet 
-As
-
-{
-repeat
-    //	t
-	x
-
-msg_type	,
-	} MetaData
-crc
-	{// c
-u8	x
-,	}	root
-
-    packet
-// " ++ [128512]%N ++ runes_of_ascii " emoji
-    	Logon
-{
-
-@calculatedFrom(
-""1"" )  @rightPad	( ' ')
-
-@leftPad (
-    ) string msg_type
-    @lengthOf(
-	uint8x
-)
-    `a\`  ,	match
-    calculatedFrom 
-as	i8i8
-{
-[
-""\" ++ [233]%N ++ runes_of_ascii """ ]
-:
-
-options1
-, 	 // c
-
-1
-    :
-
-asx
-
-    ,
-
-    [
-
-42 ,
-
-42 
-    //
-
-,//	t
-    """ ++ [28040; 24687]%N ++ runes_of_ascii """// `tick` ""quote"" 'q'
-
-  ,""""
-,  // " ++ [128512]%N ++ runes_of_ascii " emoji
-    7
-
-    ]  // @lengthOf(
-    :
-
-    x_y_z ,
-    [ 	 // " ++ [27880; 37322]%N ++ runes_of_ascii "
-
-0	//x
-	] 
-:
-	    // packet A { u8 x, }
-  asx
-
-    //
-
-	7
-    :
-u8x
-[7
-    ]: 
-u  ,
-},
-	}
-MetaData
-repeatCount 
-{
-float
-    Foo , As 	 //	t
-i8i8	,}
-	packet
-tag  {  @leftPad  (
-' ' )
-
-match
-Z9_
-
-as
-msg_type{  
-      //
-
-	[
-10 ,
-	""a\""b"" , 
-0
-
-    , 255, 7
-
-,
-
-0123456789
-
-,
-	10
-	]	:
-
-Logon,
-	""" ++ [233]%N ++ runes_of_ascii "t" ++ [233]%N ++ runes_of_ascii """	:
-    a1 
-, 7
-
-// packet A { u8 x, }
-		/// triple
-	:
-i64_, 
-255
-:
-leftPad
-    }
-, }")).
-Eval vm_compute in ("<<<M1053>>>" ++ check (runes_of_ascii "packet
-    repeatCount
-    {	match	float as u { // trailing space 
-""" ++ [128512]%N ++ runes_of_ascii """ :	i64_ , // trailing space 
+    char[10] UserName `" ++ [29992; 25143; 21517]%N ++ runes_of_ascii "`,
+    string Password `" ++ [23494; 30721]%N ++ runes_of_ascii "`,
+    uint64 ClientId `" ++ [23458; 25143; 31471]%N ++ runes_of_ascii "ID`,
+    u16 HeartbeatInterval `" ++ [24515; 36339; 38388; 38548]%N ++ runes_of_ascii "`,
 }
-    , repeat Z9_
-    {string metadata `u8 x,` , }	,
-u8 lengthOf ,
-repeat float { zchar[ 255 // `tick` ""quote"" 'q'
-]
-    matchKey@lengthOf( u8x ) , uint8 Packet
-    `" ++ [233]%N ++ runes_of_ascii "`	,x_y_z As	, zchar[
-/// triple
-// " ++ [128512]%N ++ runes_of_ascii " emoji
-3 ] chars `it's` ,
-} ,
-    repeat a1
-,@calculatedFrom(  ""it's"")uint64 x_y_z ,
-match metadata  as Packet
-{ [ """ ++ [233]%N ++ runes_of_ascii "t" ++ [233]%N ++ runes_of_ascii """]
-: BodyLength , 3 :
-    o  ,
-    //
-    65535 : Z9_// " ++ [27880; 37322]%N ++ runes_of_ascii "
-, [ ""CRC32""] :
-    Packet ,  ""a\\"":
-int , 4294967296 : Foo,}
-, repeat
-// trailing space 
-// c
-int {
-    // `tick` ""quote"" 'q'
-    lengthOf @lengthOf(o
-// trailing space 
-// " ++ [27880; 37322]%N ++ runes_of_ascii "
-) // " ++ [128512]%N ++ runes_of_ascii " emoji
-`// not a comment`// c
-, repeat Packet a1 ,}	,
-    //
-    @lengthOf( u )char[ 10 // @lengthOf(
-] packetx @calculatedFrom(""abc"" ) , @rightPad
-    ( '0' )  T,}
-")).
-Eval vm_compute in ("<<<M3758>>>" ++ check (runes_of_ascii "// top
-options {
-    StringPrefixLenType = u8;
-    // c5
-    ArrayPrefixLenType = u32;// c9a
-    // c9b
-}
-
-packet Quote {
-    // c13
-    u32 Ref,// c16
-    InNote74 {
-        // c18
-        u8 pad0,// c21a
-        // c21b
-    },
-    // c23
-}
-
-// c24
-packet Ack {
-    // c27a
-    // c27b
-    repeat string OrderId,
-}// c32
 
 packet Logout {
-    // c35
-    zchar[7] venue,// c40
-    char[12] Px,// c45
-    string count,
-    // c48
-    char[] Tail,
-    // c51
-    char[] Qty,// c54a
-    // c54b
-    Quote,// c56
+    @rightPad('0')
+    char[10] UserName `" ++ [29992; 25143; 21517]%N ++ runes_of_ascii "`,
+    uint64 ClientId `" ++ [23458; 25143; 31471]%N ++ runes_of_ascii "ID`,
 }
 
-root packet Trade {
-    // c61
-    zchar[2] price,// c66
-    u32 x,// c69a
-    // c69b
-    u32 lastPx @lengthOf(Body),
-    // c75
-    match x as Body {
-        // c80
-        148 : Ack,
-        171 : Quote,
-        15 : Logout,
-        // c92a
-        // c92b
+packet Heartbeat {
+}
+
+packet RiskControlRequest {
+    string UniqueOrderId `" ++ [21807; 19968; 35746; 21333; 21495]%N ++ runes_of_ascii "`,
+    char[16] ClOrdID `" ++ [23458; 25143; 35746; 21333; 21495]%N ++ runes_of_ascii "`,
+    char[3] MarketID `" ++ [24066; 22330]%N ++ runes_of_ascii "id`,
+    char[12] SecurityID `" ++ [35777; 21048; 20195; 30721]%N ++ runes_of_ascii "`,
+    char Side `" ++ [20080; 21334; 26041; 21521]%N ++ runes_of_ascii "`,
+    char OrderType `" ++ [35746; 21333; 31867; 22411]%N ++ runes_of_ascii "`,
+    u64 Price `" ++ [20215; 26684]%N ++ runes_of_ascii "`,
+    u32 Qty `" ++ [25968; 37327]%N ++ runes_of_ascii "`,
+    repeat string ExtraInfo `" ++ [38468; 21152; 20449; 24687]%N ++ runes_of_ascii "`,
+    repeat SubOrder {
+        char[16] ClOrdID `" ++ [23376; 35746; 21333; 21495]%N ++ runes_of_ascii "`,
+        u64 Price `" ++ [23376; 35746; 21333; 20215; 26684]%N ++ runes_of_ascii "`,
+        u32 Qty `" ++ [23376; 35746; 21333; 25968; 37327]%N ++ runes_of_ascii "`,
     },
-    // c94
+}
+
+packet RiskControlResponse {
+    string UniqueOrderId `" ++ [21807; 19968; 35746; 21333; 21495]%N ++ runes_of_ascii "`,
+    i32 Status `" ++ [29366; 24577]%N ++ runes_of_ascii "`,
+    string Msg `" ++ [32467; 26524; 20449; 24687]%N ++ runes_of_ascii "`,
+    repeat Detail,
+}
+
+packet Detail {
+    string RuleName `" ++ [35268; 21017; 21517; 31216]%N ++ runes_of_ascii "`,
+    u16 Code `" ++ [21407; 22240; 20195; 30721]%N ++ runes_of_ascii "`,
 }")).
-Eval vm_compute in ("<<<M4505>>>" ++ check (runes_of_ascii "
-packet A 
-{ 
-repeatCount
+Eval vm_compute in ("<<<M1782>>>" ++ check (runes_of_ascii "options{ StringPrefixLenType = u16 ;ArrayPrefixLenType =
 
-{ 
-        // " ++ [27880; 37322]%N ++ runes_of_ascii "
-      repeat string	//	t
-    falsey`" ++ [233]%N ++ runes_of_ascii "`
-, x	Z9_//x
-,  rootA  repeatCount
-`a\` 
-, repeat 	 // " ++ [128512]%N ++ runes_of_ascii " emoji
-	char[]
-    x_y_z 
-`` ,
-}
-,
-}root	packet
-//
-int
-	{
-@calculatedFrom(  ""\n"" )
-
-    @calculatedFrom(""a\\"" 	 // trailing space 
-
-) repeat
-
-    lengthOf
-
-repeatCount  `two words` 
-    // packet A { u8 x, }
-    // c
-	,
-
-    }
-    root
-	packet BodyLength
-
-{ @calculatedFrom(""`tick`"" )  repeat
-	asx{	zchar[ 10
-] 
-MetaDataX , repeat
-	char[4294967296
-	]
-rootA
-    `say ""hi""`	, 
-uint64
-As
-`" ++ [233]%N ++ runes_of_ascii "`
-
-    ,
-    chars
-
-u ,	}
-    ,
-    @tag(
-	0123456789 )@tag(
-0)string
-	roots
-
-`" ++ [28040; 24687; 31867; 22411]%N ++ runes_of_ascii "`,u8  crc /// triple
-	`{ , }`
-    , // a // b
-
-@calculatedFrom(
-
-""CRC32""
-)
-    repeat	i64_ _x
-
-    ,
-char
-    Packet , }
-
-")).
-Eval vm_compute in ("<<<M201>>>" ++ check (runes_of_ascii "packet _x{
-    u ,@lengthOf( len)
-    match f32a as
-    Pad{""packet"": metadata,
-""CRC32"":x_y_z[ ""abc"" , ""{,}"" ] : Logon , }
-    // c
-    , zchar[ 7  ]	a1  ,
-    @tag( 65535 ) @tag(
-0123456789
-    )
-    //x
-    @lengthOf(
-asx ) repeat
-i16 // @lengthOf(
-tag `{ , }` // `tick` ""quote"" 'q'
-,
-    @leftPad	(
-'\x00' ) match i64_ as x { 0 :crc , [
-//	t
-// trailing space 
-""// no comment"" ] : uint8x ,
-    42
-// a // b
-// trailing space 
-:  string_	, 007 : trueish , [10 ]// " ++ [128512]%N ++ runes_of_ascii " emoji
-: rootA
-""" ++ [28040; 24687]%N ++ runes_of_ascii """
-    : // trailing space 
-len , } //
-, @rightPad (
-'\x00' // trailing space 
-) @tag(
-    //
-    00 ) @calculatedFrom( """ ++ [233]%N ++ runes_of_ascii "t" ++ [233]%N ++ runes_of_ascii """ ) // c
-char[]float
-@calculatedFrom(	""\n"" ),repeat f32 trueish `crlf
-line` ,} // @lengthOf(")).
-Eval vm_compute in ("<<<M927>>>" ++ check (runes_of_ascii "packet msg_type{ trueish	float ,zchar[ 0123456789 ]
-    trueish @lengthOf( i8i8 )
-, i64  Pad ,
-//x
-/// triple
-i64_  @lengthOf(	_x )
-    // a // b
-    ``
-, // `tick` ""quote"" 'q'
-match Foo  as As { [ """ ++ [28040; 24687]%N ++ runes_of_ascii """  , //
-""packet""
-    ,
-    1 , 7
-//
-/// triple
-,3
-, ""a	b""
-    ,  7 ] :
-_x 255
-: Foo , ""x y"" :  i64_ ,
-1 :
-options1 // trailing space 
-,} , lengthOf { //	t
-char[] u128 , u32 o , }
-    ,
-    }
-options {} MetaData len
-    {
-char Logon
-    //	t
-    ,
-repeatCount lengthOf ,
-    Z9_  o ,
-    string MetaDataX
-`
-` , uint32 repeatCount , Header falsey ,
-//	t
-// trailing space 
-} // `tick` ""quote"" 'q'
-MetaData calculatedFrom{ string	Packet `crlf
-line`
-, }
-// packet A { u8 x, }
-")).
-Eval vm_compute in ("<<<M4143>>>" ++ check (runes_of_ascii "root packet f32a {
-    zchar[0123456789] Foo,
-    zchar @lengthOf(a1),
-    @rightPad()
-    @tag(3)
-    match int as stringy {
-        [0] : chars,
-        0 : i8i8,
-        42 : i64_,
-        [255, 7, ""1"", ""a\\""] : leftPad,
-        """ ++ [233]%N ++ runes_of_ascii "t" ++ [233]%N ++ runes_of_ascii """ : Header,
-        [7] : repeatCount,
-    },
-    i32 falsey @lengthOf(u128) `two words`,
-    @tag(0)
-    char[] uint8x `{ , }`,// " ++ [128512]%N ++ runes_of_ascii " emoji
-    repeat MetaDataX {
-        string len,// `tick` ""quote"" 'q'
-    },
-    @leftPad('\x00')
-    zchar[0123456789] o,
-    f32 As @calculatedFrom(""a\\""),
-    @lengthOf(string_)
-    repeat u128 ``,
-    pack {
-        crc stringy,
-        repeat string asx,
-    },
-}")).
-Eval vm_compute in ("<<<M1028>>>" ++ check (runes_of_ascii "
-options { Packet=' ' BodyLength=
-65535 zchar	=
-'0'// @lengthOf(
-; lengthOf //x
-=
-    false ;}options {
-o
-= true ;
-Foo
-    = ""a\\"";} MetaData chars{
-    zchar[
-00
-// " ++ [128512]%N ++ runes_of_ascii " emoji
-//
-] // packet A { u8 x, }
-A ,
-Packet calculatedFrom
-    , falsey
-options1, int32 x_y_z, char[]
-    zchar
-// " ++ [128512]%N ++ runes_of_ascii " emoji
-// " ++ [128512]%N ++ runes_of_ascii " emoji
-, }
-    MetaData // " ++ [27880; 37322]%N ++ runes_of_ascii "
-_x { stringy f32a
-`u8 x,`  ,
-} packet f32a
-//
-// " ++ [27880; 37322]%N ++ runes_of_ascii "
-{
-    @calculatedFrom(""a\\"" )// " ++ [128512]%N ++ runes_of_ascii " emoji
-match a1
-as x_y_z
-{
-    [ """ ++ [233]%N ++ runes_of_ascii "t" ++ [233]%N ++ runes_of_ascii """ , """" ,""" ++ [128512]%N ++ runes_of_ascii """ , ""`tick`"" ,
-""x y"" , //	t
-""abc""
-// `tick` ""quote"" 'q'
-// " ++ [27880; 37322]%N ++ runes_of_ascii "
-,
-    ""\" ++ [233]%N ++ runes_of_ascii """ ,""packet""]	: int
-,
-    }	,
-//
-// c
-repeat uint16	f32a `crlf
-line` , }")).
-Eval vm_compute in ("<<<M678>>>" ++ check (runes_of_ascii "packet
-MetaDataX
-{
-    matchKey , }packet x
-    { i32 msg_type
-,leftPad
-{ string Logon // " ++ [27880; 37322]%N ++ runes_of_ascii "
-@lengthOf(body )
-    ,} ,/// triple
-repeat
-    options1
-{
-    i8i8 msg_type `a\` , } , @tag( 0
-)
-    @leftPad() // `tick` ""quote"" 'q'
-int64 f32a
-@lengthOf( asx) `tab	here`,char[]  pack
-`" ++ [28040; 24687; 31867; 22411]%N ++ runes_of_ascii "` , //x
-@lengthOf(	stringy ) repeat leftPad  , @leftPad // packet A { u8 x, }
-( ' '//	t
-) @leftPad (  )
-    match Logon	as roots{//x
-""`tick`""// a // b
-:
-string_
-,	}	, @tag(
-    0123456789// `tick` ""quote"" 'q'
-)
-@calculatedFrom(
-    ""1""
-) @leftPad(
-) u32	x_y_z @calculatedFrom(
-""\" ++ [233]%N ++ runes_of_ascii """ )
-    ,}
-")).
-Eval vm_compute in ("<<<M3753>>>" ++ check (runes_of_ascii "options {
-    leftPad = ""{,}""
-    f32a = true
-    trueish = zchar[007];
-    crc = ""`tick`"";// c
-}//x
-
-root packet body {
-    asx @lengthOf(f32a) ``,
-    f64 body @lengthOf(int),
-    zchar[255] BodyLength,
-    zchar[7] leftPad `line1
-    line2`,
-    @lengthOf(asx)
-    u128 @lengthOf(BodyLength) `// not a comment`,
-    @lengthOf(As)
-    char[42] _x @lengthOf(i8i8) `line1
-    line2`,
-    char[1] options1 @calculatedFrom(""packet"") `say ""hi""`,
-}
-
-options {
-    leftPad = 007;
-    charz = false
-    repeatCount = ""// no comment""
-    u = 0123456789
-}")).
-Eval vm_compute in ("<<<M4398>>>" ++ check (runes_of_ascii "MetaData a1 {
-    // `tick` ""quote"" 'q'
-    //	t
-    _x asx,
-}
-
-MetaData Packet {
-    BodyLength int,
-}
-
-root packet x {
-    @leftPad(' ')
-    f64 repeatCount @lengthOf(x) `line1
-    line2`,
-    @rightPad('\x00')
-    match i8i8 as pack {
-        [
-            10, """ ++ [128512]%N ++ runes_of_ascii """, 10, ""a	b"", 1,
-            7
-        ] : leftPad,
-        [
-            255, 10, 0, 1, """ ++ [233]%N ++ runes_of_ascii "t" ++ [233]%N ++ runes_of_ascii """,
-            ""x y""
-        ] : A,
-        """ ++ [28040; 24687]%N ++ runes_of_ascii """ : u,
-        00 : charz,
-        // a // b
-        """ ++ [28040; 24687]%N ++ runes_of_ascii """ : len,
-        0 : As,
-    },
-    f32 x `" ++ [233]%N ++ runes_of_ascii "`,
-}
-
-MetaData x {
-}")).
-Eval vm_compute in ("<<<M4488>>>" ++ check (runes_of_ascii "
-packet 
-roots
-    {repeat u8x`two words`  , repeat
-	roots 	 // " ++ [128512]%N ++ runes_of_ascii " emoji
-{// " ++ [27880; 37322]%N ++ runes_of_ascii "
-	  char[ 1 ]
-Z9_
-    `it's`
-,  // " ++ [128512]%N ++ runes_of_ascii " emoji
-
-  char[ 	 // trailing space 
-	  42
-    ]
-
-    float `" ++ [28040; 24687; 31867; 22411]%N ++ runes_of_ascii "`
-,	} ,
-char[]
-	As  `a\`
-
-,
-
-calculatedFrom
-
-    { 
-repeat	uint64
-    trueish , 
-}
-, repeat  i64 MetaDataX ,	repeat string	uint8x `say ""hi""`
-    ,
-_x A `
-`  ,
-    @lengthOf(// `tick` ""quote"" 'q'
-
-Packet )
-    @tag(7 )@leftPad 
-( // packet A { u8 x, }
-	)
-	Header
-{ u128 
-,  repeat char[]
-	trueish
-    `a\` 
-,
-}  , }")).
-Eval vm_compute in ("<<<M3873>>>" ++ check (runes_of_ascii "
-MetaData
-    asx {
-
-    u32
-    asx  ,
-//
-		// a // b
-	roots Packet
-
-    // " ++ [128512]%N ++ runes_of_ascii " emoji
-	,}
-root 
-packet 
-pack	{  // @lengthOf(
-	len
-
-@calculatedFrom( ""// no comment""	)  ,  match pack
-
-as leftPad{
-
-    [	007]	// `tick` ""quote"" 'q'
-    :
-    crc  
-      //	t
-		, 10	:
-tag,
-7 
-:	packetx 
-, """ ++ [28040; 24687]%N ++ runes_of_ascii """ 
-:
-    stringy, 65535: i64_	,
-	1:
-MetaDataX , } , 
-zchar[ 
-	/// triple
-
-  4294967296]  chars
-
-    @calculatedFrom(
-	    //	t
-	""\n"" 
-
-    // `tick` ""quote"" 'q'
-	// " ++ [27880; 37322]%N ++ runes_of_ascii "
-)
-	,
-    }
-")).
-Eval vm_compute in ("<<<M592>>>" ++ check (runes_of_ascii "// " ++ [128512]%N ++ runes_of_ascii " emoji
-packet int
-    { }options { string_=true
-Z9_ = //
-'\x00'
-    ; uint8x
-    = false}
-packet body
-{ int16
-Foo ,
-repeat	string
-roots `
-`
-// " ++ [128512]%N ++ runes_of_ascii " emoji
-//
-,//	t
-stringy a1
-    `tab	here` ,int8
-    repeatCount , @lengthOf(chars )
-    match
-    _x as repeatCount{""CRC32"" :
-f32a ,
-    [
-    // packet A { u8 x, }
-    0123456789 ,""it's"" ]:
-    Logon
-    , [""// no comment"" ,10
-, ""a\""b"" ]	:trueish
-, [ 0 ]: trueish , 0
-: BodyLength, },
-    } /// triple")).
-Eval vm_compute in ("<<<M191>>>" ++ check (runes_of_ascii "packet x
-{ repeat
-    string_
-    { repeat asx	Foo
-    /// triple
-    ,int16 i8i8 , char[] matchKey ,
-// @lengthOf(
-// trailing space 
-match calculatedFrom as // a // b
-roots  { 3
-: x_y_z , }
-    , }
-, @lengthOf(x ) repeat o `say ""hi""`
-    ,//	t
-char[] string_	`" ++ [28040; 24687; 31867; 22411]%N ++ runes_of_ascii "`
-, @lengthOf( f32a )	match
-    Pad as
-    A //	t
-{ ""a	b"": u128 , [""\" ++ [233]%N ++ runes_of_ascii """ ,
-65535
-    , 255
-,""CRC32""
-,
-1 ]
-    : i8i8
-0123456789 : falsey //	t
-, } , }packet zchar { }
-")).
-Eval vm_compute in ("<<<M3787>>>" ++ check (runes_of_ascii "
-packet
-	Packet 
-
-// " ++ [128512]%N ++ runes_of_ascii " emoji
-//	t
-{
-
-@leftPad( 
-'\x00'	) 
-        // `tick` ""quote"" 'q'
-    match
-trueish
-
-    as	Pad 
-{  65535
-    :
-
-    Header
-    ,
-00 :	// `tick` ""quote"" 'q'
-	roots 
-[
-    """ ++ [233]%N ++ runes_of_ascii "t" ++ [233]%N ++ runes_of_ascii """  ,
-
-""1""
-
-    ,	""packet""
-
-    ,
-    42 
-,
-
-0
-,
-
-    ""x y""
-    ,""" ++ [128512]%N ++ runes_of_ascii """,
-
-""a	b""
-]
-:	BodyLength
-    ,
-    """ ++ [28040; 24687]%N ++ runes_of_ascii """:	Packet  , [ """ ++ [128512]%N ++ runes_of_ascii """
-
-    ]:
-
-body	}
-,
-
-    }	//x
-options
-        // a // b
-
-	{ /// triple
-As  =
-	u16 } ")).
-Eval vm_compute in ("<<<M635>>>" ++ check (runes_of_ascii "  MetaData
-    f32a {
-char[]
-trueish ,  float64 u128
-`" ++ [28040; 24687; 31867; 22411]%N ++ runes_of_ascii "` ,
-    //	t
-    tag // a // b
-f32a ,matchKey // " ++ [128512]%N ++ runes_of_ascii " emoji
-int `two words` , i8	pack `a\` , } packet asx	{ int8	Header`say ""hi""`,} MetaData roots {i32 tag `" ++ [233]%N ++ runes_of_ascii "` ,
-    crc  Z9_ ,
-T T
-    `
-` , //
-int32  matchKey,
-matchKey Header`line1
-line2`
-// " ++ [27880; 37322]%N ++ runes_of_ascii "
-// trailing space 
-,
-// `tick` ""quote"" 'q'
-//x
-char[
-0 ] MetaDataX
-    ,
-// c
-// @lengthOf(
-} // " ++ [27880; 37322]%N)).
-Eval vm_compute in ("<<<M4335>>>" ++ check (runes_of_ascii "options {
-}
-
-options {
-    a1 = ' '
-    falsey = false;
-    f32a = 10;
-    // packet A { u8 x, }
-}
-
-packet u8x {
-    repeat BodyLength {
-        calculatedFrom @calculatedFrom(""{,}"") `{ , }`,
-        uint8 MetaDataX `say ""hi""`,
-    },
-}
-
-MetaData matchKey {
-    i8 roots `
-        `,
-    i64 rootA `say ""hi""`,/// triple
-    f64 chars `" ++ [28040; 24687; 31867; 22411]%N ++ runes_of_ascii "`,
-    zchar[3] asx `" ++ [233]%N ++ runes_of_ascii "`,
-    string msg_type,
-}")).
-Eval vm_compute in ("<<<M3523>>>" ++ check (runes_of_ascii "// top
-packet
-    // c0
-float // c1a
-  // c1b
-{ // c2a
-  // c2b
-repeat // c3
-i8i8 MetaDataX // c5
-`it's` // c6
-, rootA // c8
-, // c9a
-  // c9b
-repeat // c10
-int8 // c11
-int // c12
-, match // c14
-repeatCount // c15
-as // c16a
-  // c16b
-x_y_z {
-    // c18
-""{,}"" // c19a
-  // c19b
-: // c20
-Logon // c21
-, // c22a
-  // c22b
-} // c23
-, // c24a
-  // c24b
-} // c25a
-  // c25b
-")).
-Eval vm_compute in ("<<<M3543>>>" ++ check (runes_of_ascii "// top
-packet
-    // c0
-B // c1a
-  // c1b
-{ u8 // c3
-a // c4a
-  // c4b
-, }
-    // c6
-root // c7
-packet
-    // c8
-P
-    // c9
-{ // c10
-u8 // c11
-K // c12
-,
-    // c13
 u8
+	;	FixedStringPadFromLeft
+=
+	true
+
+    ;
+
+FixedStringPadChar  = ' ' ;
+    } packet
+
+    Quote
+
+{	int64 OrderId ,
+    char[]  Ref ,
+	@leftPad(
+	'0'
+
+    )
+char[5
+
+    ]	price	, }
+packet
+Heartbeat{ zchar[ 3]
+venue,	string Flags  , 
+}
+	packet Trade
+{repeat  InTag787
+{ 
+i32 
+venue 
+,
+
+char[
+
+    5]
+
+sym
+	,
+repeat InPx98{
+char[
+
+    11 ]Qty 
+,
+    Heartbeat , char[]  price	,u32 x, float64 
+count
+    ,
+
+    repeat Quote
+
+, },zchar[ 7]  Note , repeat char[
+	1
+	]
+Tail 
+,
+	}
+	,repeat
+    char[2 ]
+    seqNo
+
+    ,
+    InTail55 { repeat  Quote
+	,string
+	msgKind 
+,
+InPx18 { 
+char[]	count
+, repeat Quote , 
+uint16
+	Qty, }
+
+,
+char[4
+]
+    seqNo	,
+    repeat  Heartbeat
+
+    ,repeat
+	string 
+sym
+
+    , }
+
+,repeat
+	Quote,
+
+Heartbeat
+,
+    @leftPad  (	' '	)	char[
+	10]OrderId 
+,
+
+} root 
+packet Fill
+	{
+	Heartbeat  ,uint32
+	count  , u8
+	OrderId
+,match OrderId 
+as Body
+
+{
+96:
+    Quote
+, 195 :Trade  ,187 :Heartbeat	, }
+
+,
+u32 
+venue @calculatedFrom(  ""CRC32"" )
+,
+
+    }
+")).
+Eval vm_compute in ("<<<M287>>>" ++ check (runes_of_ascii "
+root packet	Foo {
+Packet
+{
+u32 chars `{ , }`
+// a // b
+// " ++ [128512]%N ++ runes_of_ascii " emoji
+, zchar[ // " ++ [27880; 37322]%N ++ runes_of_ascii "
+255 ] Foo
+    , } , f32a @lengthOf( MetaDataX ) `doc` , As`say ""hi""`
+,  char[] crc @calculatedFrom( """ ++ [28040; 24687]%N ++ runes_of_ascii """
+)`say ""hi""` ,	int32 T//x
+`// not a comment` , @lengthOf( x )
+    //
+    pack
+{  match
+i8i8 as trueish
+    { ""x y"" : BodyLength, [
+// `tick` ""quote"" 'q'
+// packet A { u8 x, }
+""\n""
+    ,007,
+    ""// no comment"" ,
+//x
+// " ++ [128512]%N ++ runes_of_ascii " emoji
+42
+,
+""1"" , 65535// " ++ [128512]%N ++ runes_of_ascii " emoji
+,10 ] :
+    a1 ,[ ""{,}""
+]
+: metadata
+, ""a	b"" : As , }	,
+} ,
+match f32a	as
+    A
+    {""abc"": rootA
+    4294967296 : /// triple
+Z9_
+    // c
+    , [
+007 , ""a\""b""	, 00
+    , 42 ,
+1	,0123456789 ,""x y""
+] : Foo , }, char[ 7 ] i64_
+    `it's` , @lengthOf( pack ) repeat As , } MetaData
+charz	{ u64 asx, } packet x { }MetaData MetaDataX{A a1
+    // " ++ [128512]%N ++ runes_of_ascii " emoji
+    , char[]	x`a\` ,uint16 leftPad , }options
+{
+a1 =
+    42
+; BodyLength	= true
+;
+x_y_z =int16 } 	 ")).
+Eval vm_compute in ("<<<M1914>>>" ++ check (runes_of_ascii "options{LittleEndian
+    =
+
+    false
+    ; StringPrefixLenType
+    =
+
+    u8
+;
+
+ArrayPrefixLenType=u8 
+;
+    FixedStringPadFromLeft  =
+
+true 
+; 
+FixedStringPadChar
+=' '
+
+;}packet  Trade {
+
+    zchar[
+2  ]
+
+Side2
+,	i8 seqNo  ,}
+
+packet  Party
+
+{ uint32 price , }
+    packet Ack { 
+@rightPad	(  '\x00'	) char[ 6
+]  x
+	,repeat char[
+	4
+	]
+    Flags	,
+zchar[
+9
+]
+f1
+	,
+
+    }packet  Cancel{
+    Ack ,
+    }
+    packet
+Heartbeat 
+{ 
+string  Px	, string	Acct
+,
+f64 Side2 ,
+InQty24 
+{	i16
+    seqNo,
+
+    repeat  i32
+Flags 
+,
+}	,
+    }root 
+packet Logon { Trade
+, i64 venue,  u32
+    x , u8 seqNo
+, match seqNo	as
+
+    Body
+
+    {
+[ 
+1
+	, 164
+    ] :Ack
+    ,
+    31 
+:  Cancel ,23 :
+Heartbeat, 
+64	:
+Party , 
+} ,
+	}
+
+")).
+Eval vm_compute in ("<<<M1643>>>" ++ check (runes_of_ascii "packet zchar {
+    BodyLength x,// trailing space 
+    @rightPad('0')
+    match _x as x {
+        [""" ++ [128512]%N ++ runes_of_ascii """] : falsey,
+        65535 : chars,
+        0 : falsey,
+        [""packet""] : metadata,
+        0 : repeatCount,
+        00 : packetx,
+    },
+}
+
+packet crc {
+    match body as len {
+        7 : leftPad,
+        007 : x_y_z,
+        00 : x_y_z,
+        [0, 10, 10, 10] : calculatedFrom,
+        ""packet"" : calculatedFrom,
+    },
+    @leftPad('0')
+    @tag(4294967296)
+    match u128 as trueish {
+        3 : i64_,
+    },
+    char[255] o @lengthOf(leftPad) `u8 x,`,
+}
+
+MetaData o {
+    float roots,
+    x_y_z MetaDataX,
+    packetx zchar,
+}")).
+Eval vm_compute in ("<<<M42>>>" ++ check (runes_of_ascii "packet	BodyLength { repeat f32a Pad`// not a comment` ,
+// " ++ [128512]%N ++ runes_of_ascii " emoji
+// c
+}
+MetaData As { }options { crc
+    // packet A { u8 x, }
+    =
+""a\\""
+float= '\x00'
+    a1 // c
+= ' ';i8i8 =
+    4294967296
+}	packet u128 {
+// `tick` ""quote"" 'q'
+//
+match //x
+stringy as o{ ""`tick`""  : Foo  , [ 4294967296 ]	: x_y_z ,} ,zchar[ /// triple
+10 ] // `tick` ""quote"" 'q'
+Packet@lengthOf(u8x
+),
+@lengthOf(
+roots) // " ++ [27880; 37322]%N ++ runes_of_ascii "
+x
+    `// not a comment` , i64
+    asx @lengthOf( rootA ) , metadata ,
+i64_ @calculatedFrom(  ""\" ++ [233]%N ++ runes_of_ascii """ ) ,	@lengthOf(u128
+) repeat o `two words` , }
+")).
+Eval vm_compute in ("<<<M293>>>" ++ check (runes_of_ascii "root
+    packet
+//	t
+// c
+charz{
+f32 stringy // @lengthOf(
+, @rightPad ( '\x00'
+    ) metadata
+    { MetaDataX
+A
+    // `tick` ""quote"" 'q'
+    , }
+,
+repeat zchar[ 0/// triple
+] u8x , @calculatedFrom( // @lengthOf(
+""it's"")
+    match trueish as
+u128 { ""{,}"" :
+    stringy
+} ,}
+    packet Packet
+{char[ 3]  int @calculatedFrom( ""x y""
+) ,
+}
+MetaData Packet { u128 trueish `" ++ [28040; 24687; 31867; 22411]%N ++ runes_of_ascii "` , int8 pack,
+    // packet A { u8 x, }
+    zchar[ 00 //x
+] repeatCount `a\` ,
+    // c
+    }
+")).
+Eval vm_compute in ("<<<M2020>>>" ++ check (runes_of_ascii "// top
+options {
+    // c1
+    LittleEndian = true;
+}// c6a
+
+// c6b
+packet Sub {
+    // c9
+    u8 a,
+    @calculatedFrom(""CRC16"")
+    // c15
+    u64 SubSum,
+}// c19a
+
+// c19b
+root packet Frame {
+    // c23
+    u16 MsgType,// c26a
+    // c26b
+    u16 BodyLen @lengthOf(Body),
+    Sub Body,
+    string note,// c38
+    @calculatedFrom(""CRC16"")
+    // c41
+    u64 Checksum,
+    // c44
+    u8 tail,// c47a
+    // c47b
+}
+// c48")).
+Eval vm_compute in ("<<<M1457>>>" ++ check (runes_of_ascii "// top
+packet
+    // c0
+B
+    // c1
+{ // c2
+u8 // c3
+a // c4
+, } // c6
+root packet
+    // c8
+P {
+    // c10
+u8 K , // c13a
+  // c13b
+u64
     // c14
 L // c15a
   // c15b
-@lengthOf( Body
-    // c17
-) ,
-    // c19
-match
-    // c20
-K as Body {
-    // c24
-1 // c25
-: B ,
-    // c28
-} // c29a
-  // c29b
-, // c30
+@lengthOf(
+    // c16
+Body // c17
+)
+    // c18
+, match // c20a
+  // c20b
+K // c21a
+  // c21b
+as // c22a
+  // c22b
+Body
+    // c23
+{ 1 : // c26a
+  // c26b
+B , // c28a
+  // c28b
+} , // c30
 }
     // c31
 ")).
-Eval vm_compute in ("<<<M4101>>>" ++ check (runes_of_ascii "  packet 
-calculatedFrom
-    {
-
-@calculatedFrom(
-""a	b""
-	)T// packet A { u8 x, }
-      {
-
-zchar[
-
-0123456789] 
-falsey
-    `say ""hi""`
-
-,
-	match
-
-o  as
-    // " ++ [27880; 37322]%N ++ runes_of_ascii "
-	matchKey
-{
-
-    [  ""`tick`""
-    , 
-//
-""it's""
-]: int
-    ,	1
-    :
-float// a // b
-
-  , }
-    ,
-    string
-    Foo @calculatedFrom(
-""a\\"" )
-,  // `tick` ""quote"" 'q'
-}  , } ")).
-Eval vm_compute in ("<<<M1102>>>" ++ check (runes_of_ascii "packet int{ @tag(7 )
-@tag(007 )zchar[ 4294967296	]	Logon @calculatedFrom(""it's"" )	`" ++ [233]%N ++ runes_of_ascii "`
-    ,
-    @leftPad (
-)@lengthOf( falsey ) char
-    x @lengthOf(
-// `tick` ""quote"" 'q'
-// " ++ [27880; 37322]%N ++ runes_of_ascii "
-msg_type )  `it's` ,
-    match
-a1 as BodyLength
-{ 42 : u
+Eval vm_compute in ("<<<M2022>>>" ++ check (runes_of_ascii "packet charz {
+    repeat char[3] BodyLength,
+    As stringy,
+    match tag as uint8x {
+        //
+        [""it's"", 007, 4294967296] : uint8x,
+    },// a // b
+    @tag(0)
+    /// triple
+    repeat char[7] u,
 }
-, repeat float32 packetx , asx `u8 x,` // trailing space 
-, lengthOf ,
-roots
-, }")).
-Eval vm_compute in ("<<<M2003>>>" ++ check (runes_of_ascii "MetaData
-    u { }  options {
-// c
-// @lengthOf(
-float = int8 ;rootA =false ; As =	int16 // `tick` ""quote"" 'q'
-repeatCount
-    // trailing space 
-    =
-    int16
-; u8x =
-    //	t
-    '\x00' ; } options	{
-    repeatCount
-@tag( 0
-u128
-    //
-    = false ; i64_
-// trailing space 
-// `tick` ""quote"" 'q'
-= '0' ; //	t
-}
-")).
-Eval vm_compute in ("<<<M2006>>>" ++ check (runes_of_ascii "MetaData
-    u { }  options {
-// c
-// @lengthOf(
-float = int8 ;rootA =false ; As =	int16 // `tick` ""quote"" 'q'
-repeatCount
-    // trailing space 
-    =
-    int16
-; u8x =
-    //	t
-    '\x00' ; } options	{
-    repeatCount
-= 0 0
-u128
-    //
-    = false ; i64_
-// trailing space 
-// `tick` ""quote"" 'q'
-= '0' ; //	t
-}
-")).
-Eval vm_compute in ("<<<M1328>>>" ++ check (runes_of_ascii "MetaData Pad
-{	roots	f32a , char[ 10
-// trailing space 
-//	t
-] u8x	, //	t
-calculatedFrom
-A , }
-packet leftPad	{ roots// " ++ [27880; 37322]%N ++ runes_of_ascii "
-@lengthOf(
-string_) `two words`
-,@tag(
-255
-)match o as options1	{ [
-    0 //
-, ""1""
-,
-""" ++ [128512]%N ++ runes_of_ascii """
-//x
-//	t
-,42 ]
-    :
-    //
-    i8i8
-    , } , /// triple
-repeatCount msg_type , }	options
-{
-    }")).
-Eval vm_compute in ("<<<M1997>>>" ++ check (runes_of_ascii "MetaData
-    u { }  options {
-// c
-// @lengthOf(
-float = int8 ;rootA =false ; As =	int16 // `tick` ""quote"" 'q'
-repeatCount
-    // trailing space 
-    =
-    int16
-; u8x =
-    //	t
-    '\x00' ; } options	{
-    =
-repeatCount 0
-u128
-    //
-    = false ; i64_
-// trailing space 
-// `tick` ""quote"" 'q'
-= '0' ; //	t
-}
-")).
-Eval vm_compute in ("<<<M1990>>>" ++ check (runes_of_ascii "MetaData
-    u { }  options {
-// c
-// @lengthOf(
-float = int8 ;rootA =false ; As =	int16 // `tick` ""quote"" 'q'
-repeatCount
-    // trailing space 
-    =
-    int16
-; u8x =
-    //	t
-    '\x00' ; } options	
-    repeatCount
-= 0
-u128
-    //
-    = false ; i64_
-// trailing space 
-// `tick` ""quote"" 'q'
-= '0' ; //	t
-}
-")).
-Eval vm_compute in ("<<<M3847>>>" ++ check (runes_of_ascii "packet
-    //	t
-    	// trailing spa'ce 
-  _x { 
-      // packet A { u8 x, }
-      // c
-  char[	3  ]u8x@lengthOf(  u8x)
 
-    ,
-@calculatedFrom(
-
-    """ ++ [128512]%N ++ runes_of_ascii """// @lengthOf(
-		)
-i16
-
-Foo	@lengthOf(  string_
-) 
-`doc` ,	repeat
-    i64 
-metadata  , @lengthOf( string_
-
-    )	i8	// c
-	u	`line1
-line2`
-
-    ,}")).
-Eval vm_compute in ("<<<M290>>>" ++ check (runes_of_ascii "packet i8i8
-{ zchar[	10 ]a1 ,	}packet x_y_z {
-//
-// c
-} options{	matchKey
-= false// " ++ [128512]%N ++ runes_of_ascii " emoji
-;
-Foo=
-i32 ; MetaDataX  = 007 pack =
-""" ++ [28040; 24687]%N ++ runes_of_ascii """
-// a // b
-// c
-; }  packet leftPad  {} root packet// a // b
-stringy{/// triple
-rootA Pad ,	falsey @calculatedFrom( ""it's"") `two words` , u8x float
-, int64
-u8x, } //x")).
-Eval vm_compute in ("<<<M447>>>" ++ check (runes_of_ascii "packet roots { @tag(  255) zchar[ 00] lengthOf	`" ++ [233]%N ++ runes_of_ascii "`
-    , zchar[ 7
-// @lengthOf(
-//
-] u `say ""hi""`// " ++ [27880; 37322]%N ++ runes_of_ascii "
-, }  options { } options { calculatedFrom
-= 4294967296 // " ++ [128512]%N ++ runes_of_ascii " emoji
-i64_ = '\x00' ; i64_
-= ""abc"" ; }  MetaData roots{
-    char[]
-    BodyLength`two words`
-, i16 Header `// not a comment`, }")).
-Eval vm_compute in ("<<<M219>>>" ++ check (runes_of_ascii "MetaData _x
-{As	f32a `doc` // " ++ [128512]%N ++ runes_of_ascii " emoji
-, }
-packet// @lengthOf(
-x {	zchar[  255
-    ]	calculatedFrom  ,string_@calculatedFrom( ""a	b"" ) , @calculatedFrom(""" ++ [128512]%N ++ runes_of_ascii """)@tag(
-4294967296 )@calculatedFrom(""a	b""
-) char[ 0 ]i64_
-`" ++ [28040; 24687; 31867; 22411]%N ++ runes_of_ascii "` ,
-    @leftPad(' '  ) repeat
-// c
-// c
-MetaDataX
-    ,}")).
-Eval vm_compute in ("<<<M332>>>" ++ check (runes_of_ascii "// packet A { u8 x, }
-options{
-    T
-=""packet"" ; } MetaData x_y_z
-{
-char roots ,
-    T f32a `{ , }`, } root packet // " ++ [128512]%N ++ runes_of_ascii " emoji
-uint8x
-{ @calculatedFrom( ""// no comment"") repeat As
-{rootA
-@calculatedFrom(
-""" ++ [28040; 24687]%N ++ runes_of_ascii """ ) `{ , }` , u16 zchar`{ , }` ,  char[	7
-]o `" ++ [233]%N ++ runes_of_ascii "` ,
-} ,}
-")).
-Eval vm_compute in ("<<<M4359>>>" ++ check (runes_of_ascii "
-packet
-
-    falsey 
-    //
-  {
-@calculatedFrom(  // @lengthOf(
-
-  ""`tick`""
-)  Pad 
-/// triple
-
-  // c
-    {
-match	pack	as  roots {
-""" ++ [233]%N ++ runes_of_ascii "t" ++ [233]%N ++ runes_of_ascii """ :
-u
-	,
-    42 :  //
-	  As
-    ""packet"" :
-
-    Logon
-    , }
-	,
-},	} 
-options{ 
-}
-root
-
-    packet 
-stringy
-
-{	}
-
-")).
-Eval vm_compute in ("<<<M1565>>>" ++ check (runes_of_ascii "packet
-//	t
-// trailing space 
-_x {
 // packet A { u8 x, }
-// c
-char[
-3
-    ] u8x @lengthOf(
-u8x ) , @calculatedFrom(""" ++ [128512]%N ++ runes_of_ascii """ // @lengthOf(
-)
-i16	uint64
-@lengthOf(	string_
-    )`doc`	, repeat	i64 metadata , @lengthOf( string_
-) i8 // c
-u  `line1
-line2`	,
+MetaData options1 {
+    Z9_ _x,
 }
-")).
-Eval vm_compute in ("<<<M1530>>>" ++ check (runes_of_ascii "packet
-//	t
-// trailing space 
-_x {
-// packet A { u8 x, }
-// c
-char[
-3
-    ] u8x @lengthOf(
-true ) , @calculatedFrom(""" ++ [128512]%N ++ runes_of_ascii """ // @lengthOf(
-)
-i16	Foo
-@lengthOf(	string_
-    )`doc`	, repeat	i64 metadata , @lengthOf( string_
-) i8 // c
-u  `line1
-line2`	,
-}
-")).
-Eval vm_compute in ("<<<M1564>>>" ++ check (runes_of_ascii "packet
-//	t
-// trailing space 
-_x {
-// packet A { u8 x, }
-// c
-char[
-3
-    ] u8x @lengthOf(
-u8x ) , @calculatedFrom(""" ++ [128512]%N ++ runes_of_ascii """ // @lengthOf(
-)
-i16	@lengthOf(
-Foo	string_
-    )`doc`	, repeat	i64 metadata , @lengthOf( string_
-) i8 // c
-u  `line1
-line2`	,
-}
-")).
-Eval vm_compute in ("<<<M1577>>>" ++ check (runes_of_ascii "packet
-//	t
-// trailing space 
-_x {
-// packet A { u8 x, }
-// c
-char[
-3
-    ] u8x @lengthOf(
-u8x ) , @calculatedFrom(""" ++ [128512]%N ++ runes_of_ascii """ // @lengthOf(
-)
-i16	Foo
-@lengthOf(	string_
-    `doc`	, repeat	i64 metadata , @lengthOf( string_
-) i8 // c
-u  `line1
-line2`	,
-}
-")).
-Eval vm_compute in ("<<<M280>>>" ++ check (runes_of_ascii "
-options
-{charz =""x y"" calculatedFrom =	'0'	} packet msg_type {msg_type asx, string// packet A { u8 x, }
-packetx ,MetaDataX,
-Header { i64 packetx`tab	here`
-,  }, } options { // @lengthOf(
-uint8x = 0 x_y_z =	""x y""
-// packet A { u8 x, }
-//	t
-; }")).
-Eval vm_compute in ("<<<M1004>>>" ++ check (runes_of_ascii "root
-packet calculatedFrom { repeat string charz,@calculatedFrom( """ ++ [233]%N ++ runes_of_ascii "t" ++ [233]%N ++ runes_of_ascii """
-)
-Foo @lengthOf(
-    tag ) `a\`,match
-_x  as
-    As // c
-{""{,}"" :f32a,	} ,}
-    MetaData body { leftPad asx , u Pad //x
-`
-` , zchar[3]
-leftPad ,
-metadata chars ,	}
-")).
-Eval vm_compute in ("<<<M3>>>" ++ check (runes_of_ascii "
-options	{
-} MetaData pack {string T ,
-    msg_type
-    // a // b
-    stringy `" ++ [233]%N ++ runes_of_ascii "`
-, }
-    // " ++ [128512]%N ++ runes_of_ascii " emoji
-    packet a1 {
-// " ++ [128512]%N ++ runes_of_ascii " emoji
-// packet A { u8 x, }
-repeat i32 x , i16 msg_type @calculatedFrom( ""it's""
-    )`two words` , } // " ++ [27880; 37322]%N)).
-Eval vm_compute in ("<<<M1747>>>" ++ check (runes_of_ascii "options { trueish = ""`tick`"" ; string_= """ ++ [233]%N ++ runes_of_ascii "t" ++ [233]%N ++ runes_of_ascii """
-    // c
-    } root
-    packet body { stringy @calculatedFrom( @calculatedFrom(
-""a	b"" ) `line1
-line2` , }
-packet Logon {
-    @leftPad(
-    ' ' ) //	t
-u16 string_ `u8 x,` ,
-}
-")).
-Eval vm_compute in ("<<<M4311>>>" ++ check (runes_of_ascii "
-options  // c
-    {
-x_y_z
-	=
-	f64 }// " ++ [27880; 37322]%N ++ runes_of_ascii "
-  root 
-packet As{
 
-@tag( 255 )
-string
-    BodyLength,
-
-@leftPad
-
-( )
-    match Foo
-as body
-{
-	007
-    : 
-i8i8, 42
-	: metadata
-,	// @lengthOf(
-"""" :body
-
-,
-
-    }	, }")).
-Eval vm_compute in ("<<<M1727>>>" ++ check (runes_of_ascii "options { trueish = ""`tick`"" ; string_= """ ++ [233]%N ++ runes_of_ascii "t" ++ [233]%N ++ runes_of_ascii """
-    // c
-    } root
-    packet packet body { stringy @calculatedFrom(
-""a	b"" ) `line1
-line2` , }
-packet Logon {
-    @leftPad(
-    ' ' ) //	t
-u16 string_ `u8 x,` ,
+packet BodyLength {
 }
-")).
-Eval vm_compute in ("<<<M3610>>>" ++ check (runes_of_ascii "packet Logon {
-    string user,
+
+MetaData chars {
+    float Foo,
+}")).
+Eval vm_compute in ("<<<M1503>>>" ++ check (runes_of_ascii "packet A {
+    u8 a,
 }
-root packet Frame {
-    u8 K,
-    match K as Body {
-        1 : Logon,
-        2 : Logout,
+packet B {
+    u16 b,
+}
+packet C {
+    u32 c,
+}
+root packet M {
+    u16 Kc, u16 Kb, u16 Ka,
+    match Kc as X {
+        9 : A,
+        10 : B,
     },
-    Tail,
-}
-packet Logout {
-    u16 reason,
-}
-packet Tail {
-    u32 crc,
-}
-")).
-Eval vm_compute in ("<<<M1759>>>" ++ check (runes_of_ascii "options { trueish = ""`tick`"" ; string_= """ ++ [233]%N ++ runes_of_ascii "t" ++ [233]%N ++ runes_of_ascii """
-    // c
-    } root
-    packet body { stringy @calculatedFrom(
-""a	b"" i8 `line1
-line2` , }
-packet Logon {
-    @leftPad(
-    ' ' ) //	t
-u16 string_ `u8 x,` ,
+    match Kb as Y {
+        2 : C,
+        1 : A,
+    },
+    match Ka as Z {
+        1 : B,
+    },
+    A, B, C,
 }
 ")).
-Eval vm_compute in ("<<<M1758>>>" ++ check (runes_of_ascii "options { trueish = ""`tick`"" ; string_= """ ++ [233]%N ++ runes_of_ascii "t" ++ [233]%N ++ runes_of_ascii """
-    // c
-    } root
-    packet body { stringy @calculatedFrom(
-""a	b"" `line1
-line2` ) , }
-packet Logon {
-    @leftPad(
-    ' ' ) //	t
-u16 string_ `u8 x,` ,
-}
-")).
-Eval vm_compute in ("<<<M1771>>>" ++ check (runes_of_ascii "options { trueish = ""`tick`"" ; string_= """ ++ [233]%N ++ runes_of_ascii "t" ++ [233]%N ++ runes_of_ascii """
-    // c
-    } root
-    packet body { stringy @calculatedFrom(
-""a	b"" ) `line1
-line2` , 
-packet Logon {
-    @leftPad(
-    ' ' ) //	t
-u16 string_ `u8 x,` ,
-}
-")).
-Eval vm_compute in ("<<<M1675>>>" ++ check (runes_of_ascii "[ { trueish = ""`tick`"" ; string_= """ ++ [233]%N ++ runes_of_ascii "t" ++ [233]%N ++ runes_of_ascii """
-    // c
-    } root
-    packet body { stringy @calculatedFrom(
-""a	b"" ) `line1
-line2` , }
-packet Logon {
-    @leftPad(
-    ' ' ) //	t
-u16 string_ `u8 x,` ,
-}
-")).
-Eval vm_compute in ("<<<M3687>>>" ++ check (runes_of_ascii "//	t
-MetaData
-    chars	{ falsey
-
-pack , packetx
-
-zchar  `
-`,
-}  // " ++ [128512]%N ++ runes_of_ascii " emoji
-    packet
-	u128
-
-    {
-@lengthOf( tag	)@tag(
-	// trailing space 
-  1
-)
-
-@rightPad	('\x00'
-    )i64
-
-T
-    ,
-}
-")).
-Eval vm_compute in ("<<<M513>>>" ++ check (runes_of_ascii "packet
-u128 {
-f64 chars ``
-, @lengthOf(metadata ) @lengthOf(matchKey
-    )// trailing space 
-@tag(42
-    )a1@lengthOf( MetaDataX ) `
-` ,
-}
-    // c
-    packet f32a	{
-    // " ++ [128512]%N ++ runes_of_ascii " emoji
-    }
-")).
-Eval vm_compute in ("<<<M3389>>>" ++ check (runes_of_ascii "// top
-MetaData // c0
-body // c1
+Eval vm_compute in ("<<<M579>>>" ++ check (runes_of_ascii "root packet tag { }  packet MetaDataX{char[007	]
+// c
+/// triple
+asx  @calculatedFrom( ""a\""b""
+) `say ""hi""`// " ++ [27880; 37322]%N ++ runes_of_ascii "
+,  @tag(4294967296 )
+    char[ char[1//x
+] packetx @calculatedFrom(""a\""b""
+    ) ,
+// " ++ [128512]%N ++ runes_of_ascii " emoji
+// a // b
+@calculatedFrom(""" ++ [233]%N ++ runes_of_ascii "t" ++ [233]%N ++ runes_of_ascii """  ) repeat pack // " ++ [27880; 37322]%N ++ runes_of_ascii "
+,
+    } // c")).
+Eval vm_compute in ("<<<M574>>>" ++ check (runes_of_ascii "root packet tag { }  packet MetaDataX{char[007	]
+// c
+/// triple
+asx  @calculatedFrom( ""a\""b""
+) `say ""hi""`// " ++ [27880; 37322]%N ++ runes_of_ascii "
+,  @tag(4294967296 ) )
+    char[1//x
+] packetx @calculatedFrom(""a\""b""
+    ) ,
+// " ++ [128512]%N ++ runes_of_ascii " emoji
+// a // b
+@calculatedFrom(""" ++ [233]%N ++ runes_of_ascii "t" ++ [233]%N ++ runes_of_ascii """  ) repeat pack // " ++ [27880; 37322]%N ++ runes_of_ascii "
+,
+    } // c")).
+Eval vm_compute in ("<<<M669>>>" ++ check (runes_of_ascii "root packet tag { }  packet MetaDataX{char[007	]
+// c
+/// triple
+asx  @calculatedFrom( ""a\""b""
+"") `say ""hi""`// " ++ [27880; 37322]%N ++ runes_of_ascii "
+,  @tag(4294967296 )
+    char[1//x
+] packetx @calculatedFrom(""a\""b""
+    ) ,
+// " ++ [128512]%N ++ runes_of_ascii " emoji
+// a // b
+@calculatedFrom(""" ++ [233]%N ++ runes_of_ascii "t" ++ [233]%N ++ runes_of_ascii """  ) repeat pack // " ++ [27880; 37322]%N ++ runes_of_ascii "
+,
+    } // c")).
+Eval vm_compute in ("<<<M630>>>" ++ check (runes_of_ascii "root packet tag { }  packet MetaDataX{char[007	]
+// c
+/// triple
+asx  @calculatedFrom( ""a\""b""
+) `say ""hi""`// " ++ [27880; 37322]%N ++ runes_of_ascii "
+,  @tag(4294967296 )
+    char[1//x
+] packetx @calculatedFrom(""a\""b""
+    ) ,
+// " ++ [128512]%N ++ runes_of_ascii " emoji
+// a // b
+@calculatedFrom(""" ++ [233]%N ++ runes_of_ascii "t" ++ [233]%N ++ runes_of_ascii """  repeat ) pack // " ++ [27880; 37322]%N ++ runes_of_ascii "
+,
+    } // c")).
+Eval vm_compute in ("<<<M506>>>" ++ check (runes_of_ascii "root packet tag { }  i64 MetaDataX{char[007	]
+// c
+/// triple
+asx  @calculatedFrom( ""a\""b""
+) `say ""hi""`// " ++ [27880; 37322]%N ++ runes_of_ascii "
+,  @tag(4294967296 )
+    char[1//x
+] packetx @calculatedFrom(""a\""b""
+    ) ,
+// " ++ [128512]%N ++ runes_of_ascii " emoji
+// a // b
+@calculatedFrom(""" ++ [233]%N ++ runes_of_ascii "t" ++ [233]%N ++ runes_of_ascii """  ) repeat pack // " ++ [27880; 37322]%N ++ runes_of_ascii "
+,
+    } // c")).
+Eval vm_compute in ("<<<M651>>>" ++ check (runes_of_ascii "root packet tag { }  packet MetaDataX{char[007	]
+// c
+/// triple
+asx  @calculatedFrom( ""a\""b""
+) `say ""hi""`// " ++ [27880; 37322]%N ++ runes_of_ascii "
+,  @tag(4294967296 )
+    char[1//x
+] packetx @calculatedFrom(""a\""b""
+    ) ,
+// " ++ [128512]%N ++ runes_of_ascii " emoji
+// a // b
+@calculatedFrom(""" ++ [233]%N ++ runes_of_ascii "t" ++ [233]%N ++ runes_of_ascii """  ) repeat pack // " ++ [27880; 37322]%N ++ runes_of_ascii "
+,")).
+Eval vm_compute in ("<<<M1722>>>" ++ check (runes_of_ascii "packet matchKey {
+    // packet A { u8 x, }
+    zchar[65535] Foo @calculatedFrom(""\n"") ``,
+    @tag(10)
+    repeat x Logon `
+        `,
+    @calculatedFrom(""it's"")
+    @rightPad()
+    zchar[255] lengthOf,
+    repeat uint8x `" ++ [233]%N ++ runes_of_ascii "`,
+}")).
+Eval vm_compute in ("<<<M1391>>>" ++ check (runes_of_ascii "// top
+packet // c0
+chars // c1
 { // c2
-i64 // c3
-pack // c4
-`it's` // c5
-, // c6
-} // c7
-packet // c8
-stringy // c9
-{ // c10
-int16 // c11
-calculatedFrom // c12
-, // c13
-} // c14
+} // c3
+packet // c4
+MetaDataX // c5
+{ // c6
+@tag( // c7
+42 // c8
+) // c9
+i16 // c10
+string_ // c11
+, // c12
+repeat // c13
+x // c14
+`say ""hi""` // c15
+, // c16
+} // c17
 ")).
-Eval vm_compute in ("<<<M1065>>>" ++ check (runes_of_ascii "packet	stringy { // trailing space 
-@lengthOf(rootA ) repeat char[] len`u8 x,`, float32 zchar,@tag(
-    42
-) @tag(
-    255
-) @tag( 10 )
-    repeatCount, repeat leftPad ,} 	 ")).
-Eval vm_compute in ("<<<M3726>>>" ++ check (runes_of_ascii "packet A {
+Eval vm_compute in ("<<<M277>>>" ++ check (runes_of_ascii "// " ++ [128512]%N ++ runes_of_ascii " emoji
+MetaData trueish {
+    // @lengthOf(
+    asx lengthOf
+    // a // b
+    , int8 // c
+float`it's`
+,}
+MetaData
+int{ int8
+charz ,} packet asx { o @calculatedFrom(
+""\" ++ [233]%N ++ runes_of_ascii """
+    ) ,
+}
+")).
+Eval vm_compute in ("<<<M420>>>" ++ check (runes_of_ascii "packet
+    // `tick` ""quote"" 'q'
+    crc
+// packet A { u8 x, }
+//	t
+{
+u32 a1 ,
+    // trailing space 
+    roots
+charz charz //
+`two words`,	}
+    MetaData int {
+} /// triple")).
+Eval vm_compute in ("<<<M450>>>" ++ check (runes_of_ascii "packet
+    // `tick` ""quote"" 'q'
+    crc
+// packet A { u8 x, }
+//	t
+{
+u32 a1 ,
+    // trailing space 
+    roots
+charz //
+`two words`,	}
+    MetaData int { {
+} /// triple")).
+Eval vm_compute in ("<<<M406>>>" ++ check (runes_of_ascii "packet
+    // `tick` ""quote"" 'q'
+    crc
+// packet A { u8 x, }
+//	t
+{
+u32 , a1
+    // trailing space 
+    roots
+charz //
+`two words`,	}
+    MetaData int {
+} /// triple")).
+Eval vm_compute in ("<<<M449>>>" ++ check (runes_of_ascii "packet
+    // `tick` ""quote"" 'q'
+    crc
+// packet A { u8 x, }
+//	t
+{
+u32 a1 ,
+    // trailing space 
+    roots
+charz //
+`two words`,	}
+    MetaData int 
+} /// triple")).
+Eval vm_compute in ("<<<M690>>>" ++ check (runes_of_ascii "root packet len // trailing space 
+{
+// " ++ [27880; 37322]%N ++ runes_of_ascii "
+//	t
+char[10
+] a" ++ [769]%N ++ runes_of_ascii "b	@lengthOf( o ) `crlf
+line`,
+    @rightPad
+( ' '
+) string
+    Header @calculatedFrom( ""a\\""
+    ), }
+")).
+Eval vm_compute in ("<<<M1781>>>" ++ check (runes_of_ascii "
+root  packet
+
+    matchKey 
+{
+zchar[3  ]
+
+    pack
+@calculatedFrom(	""a	b""
+
+    )	`doc` ,
+
+}options
+
+{ 	 // c
+  	} MetaData
+
+A
+{int8 msg_type
+,
+}
+")).
+Eval vm_compute in ("<<<M1789>>>" ++ check (runes_of_ascii "packet A {
     match k as n {
         [
-            ""a"", 22, ""c c"", 4, ""e"",
-            66, ""g"", 8, ""i"", 10,
-            ""k"", 12
+            ""a"", ""bb"", 007, ""d"", ""e"",
+            66, ""g"", ""h"", 9
         ] : B,
         2 : C,
     },
 }")).
-Eval vm_compute in ("<<<M4444>>>" ++ check (runes_of_ascii "
-root
-packet
-
-matchKey
-	{zchar[
-3]
-
-    pack
-    @calculatedFrom( ""a	b""
-	)
-
-    `doc` ,
-
-    }
-
-options
-
-{ }
-    MetaData A{  // c
-    int8
-	msg_type,
-	}
-
-")).
-Eval vm_compute in ("<<<M2336>>>" ++ check (runes_of_ascii "// c
-packet x { @lengthOf( metadata ) repeat lengthOf
-,a1{
-trueish	,// c
-repeat//	t
-MetaDataX , } , zchar[
-    options	] rootA // `tick` ""quote"" 'q'
-,
-    }
-")).
-Eval vm_compute in ("<<<M58>>>" ++ check (runes_of_ascii "root packet chars { /// triple
-int16 trueish	@lengthOf( MetaDataX)
-`tab	here`,} MetaData
-T
-// a // b
-// c
-{
-    int64 packetx `doc`
-    // @lengthOf(
-    ,}")).
-Eval vm_compute in ("<<<M2390>>>" ++ check (runes_of_ascii "// c
-packet x i8 @lengthOf( metadata ) repeat lengthOf
-,a1{
-trueish	,// c
-repeat//	t
-MetaDataX , } , zchar[
-    42	] rootA // `tick` ""quote"" 'q'
-,
-    }
-")).
-Eval vm_compute in ("<<<M2379>>>" ++ check (runes_of_ascii "// c
-packet x { @lengthOf( ) metadata repeat lengthOf
-,a1{
-trueish	,// c
-repeat//	t
-MetaDataX , } , zchar[
-    42	] rootA // `tick` ""quote"" 'q'
-,
-    }
-")).
-Eval vm_compute in ("<<<M4063>>>" ++ check (runes_of_ascii "
-
-  packet A
-
-    { match  k
-
-    as n{
-    [
-	1,
-
-    22
-	,  007 ,
-    4,	5
-, 66
-,
-	7
-,
-8 ,
-
-    9 ,	10
-
-    ,11	,	12 ]  :	B
-,
-	2 
-: C	},
-} ")).
-Eval vm_compute in ("<<<M2347>>>" ++ check (runes_of_ascii "// c
-packet x { @lengthOf( metadata ) repeat lengthOf
-,{
-trueish	,// c
-repeat//	t
-MetaDataX , } , zchar[
-    42	] rootA // `tick` ""quote"" 'q'
-,
-    }
-")).
-Eval vm_compute in ("<<<M2127>>>" ++ check (runes_of_ascii "options{
-_x
-= true
-} options
-{ o	= /// triple
-u64
-    ; chars
-= ""\n"" } root packet	Pad
-/// triple
-// packet A { u8 x, }
-{	chars
-    // a // b
-    ,}")).
-Eval vm_compute in ("<<<M4374>>>" ++ check (runes_of_ascii "  root
-
-packet
-matchKey{	zchar[ 
-
-    // c
-  3 ]
-pack @calculatedFrom(
-	""a	b"" )
-`doc` ,
-	}	options
-	{
-
-}
-MetaData A
-    {
-
-int8
-
-    msg_type, } ")).
-Eval vm_compute in ("<<<M3746>>>" ++ check (runes_of_ascii "//x
-options {
-    pack = ""{,}"";
-    asx = 65535;
-    u = zchar[007];
-    // trailing space 
-    i8i8 = char[]
-    As = ' '
-}// packet A { u8 x, }")).
-Eval vm_compute in ("<<<M4274>>>" ++ check (runes_of_ascii "
-
-  packet
-    B {u8 a ,
-	}
-root packet  P
-
-    {u8 K
-
-,
-    u64  L
-@lengthOf(	Body) ,match K 
-as
-
-    Body
-    {
-
-    1  :B	, } 
-,
-	}
-")).
-Eval vm_compute in ("<<<M4386>>>" ++ check (runes_of_ascii "options {
-}
-
-packet tag {
-    u64 u @lengthOf(u128),
-    char[] Pad @lengthOf(crc),
-    i32 options1 @lengthOf(msg_type),
-}
-
-options {
+Eval vm_compute in ("<<<M1790>>>" ++ check (runes_of_ascii "packet A {
+    match k as n {
+        [
+            1, ""bb"", 007, ""d"", 5,
+            ""f"", 7, ""h""
+        ] : B,
+        2 : C,
+    },
 }")).
-Eval vm_compute in ("<<<M4035>>>" ++ check (runes_of_ascii "// top
-options {
-    FixedStringPadFromLeft = true;// c5
-}
-
-// c6
-root packet P {
-    // c10
-    char[4] z,// c15
-}// c16a
-// c16b")).
-Eval vm_compute in ("<<<M4233>>>" ++ check (runes_of_ascii "// c
-root packet matchKey {
-    zchar[3] pack @calculatedFrom(""a	b"") `doc`,
-}
-
-options {
-}
-
-MetaData A {
-    int8 msg_type,
-}")).
-Eval vm_compute in ("<<<M2321>>>" ++ check (runes_of_ascii "// c
-packet x { @lengthOf( metadata ) repeat lengthOf
-,a1{
-trueish	,// c
-repeat//	t
-MetaDataX , } , zchar[
-    42	] rootA")).
-Eval vm_compute in ("<<<M3329>>>" ++ check (runes_of_ascii "root packet matchKey { zchar[ 3 ] pack @calculatedFrom(
-// c
-""a	b"" ) `doc` , } options { } MetaData A { int8 msg_type , }")).
-Eval vm_compute in ("<<<M4495>>>" ++ check (runes_of_ascii "  packet chars
-	{
-
-}
-packet 
-        // c
-    MetaDataX
-
+Eval vm_compute in ("<<<M1458>>>" ++ check (runes_of_ascii "packet  B
 {
-
-@tag(42
-    )
-i16
-string_
+    u8
+a
 
     ,
-	repeat x `say ""hi""`
-	, } ")).
-Eval vm_compute in ("<<<M1484>>>" ++ check (runes_of_ascii "
-packet
-    falsey { Header@calculatedFrom(""packet""  ) , char[
-    0123456789 ] packetx
-    , } // `tick` ""quote""? 'q'")).
-Eval vm_compute in ("<<<M4555>>>" ++ check (runes_of_ascii "  options
+}root
+    packet P {
 
-{string_ 	 // " ++ [128512]%N ++ runes_of_ascii " emoji
+u8 K
 
-  =
-false ;
-
-}
-options
-
-{
-options1
-
-= '\x00'falsey =10
-	tag  /// triple
-=65535
-} ")).
-Eval vm_compute in ("<<<M4407>>>" ++ check (runes_of_ascii "
-
-  packet chars
-{ }
-packet MetaDataX { // c
-    @tag(
-
-42
-) 
-i16
-    string_ 
 ,
+	u64
+L
 
-    repeat
-x
-`say ""hi""`
-, }
-")).
-Eval vm_compute in ("<<<M996>>>" ++ check (runes_of_ascii "
-MetaData // `tick` ""quote"" 'q'
-Foo { char[
-    4294967296
-    ] // packet A { u8 x, }
-string_ , T float , }
-")).
-Eval vm_compute in ("<<<M2964>>>" ++ check (runes_of_ascii "packet A {
-  match k as n {
-    [""a"", ""bb"", ""c c"", ""d"", ""e"", ""f"", ""g"", ""h"", ""i"", ""j""] : B,
-    2 : C
-  },
-}")).
-Eval vm_compute in ("<<<M3838>>>" ++ check (runes_of_ascii "MetaData float {
-    float64 charz `
-    `,
-}
+@lengthOf(	Body ) ,	match
+K 
+as
+Body{
+	1
+:
 
-root packet chars {
-    // c
-    @rightPad('0')
-    Foo,
-}")).
-Eval vm_compute in ("<<<M4390>>>" ++ check (runes_of_ascii "
-options	{ u
-	= uint16 i8i8 =
-i8
-    ;
-
-string_=
-false; 
-asx
-    =  true lengthOf=0123456789
-; 
+B,} 
+,
 }
 ")).
-Eval vm_compute in ("<<<M4068>>>" ++ check (runes_of_ascii "
-packet
-metadata // c
-	{ 
-Logon{A `" ++ [28040; 24687; 31867; 22411]%N ++ runes_of_ascii "` ,
-tag  o  ,
-    } ,zchar
+Eval vm_compute in ("<<<M1232>>>" ++ check (runes_of_ascii "root packet matchKey { zchar[
+// c
+3 ] pack @calculatedFrom( ""a	b"" ) `doc` , } options { } MetaData A { int8 msg_type , }")).
+Eval vm_compute in ("<<<M1264>>>" ++ check (runes_of_ascii "root packet matchKey { zchar[ 3 ] pack @calculatedFrom( ""a	b"" ) `doc` , } options { } MetaData A { int8
+// c
+msg_type , }")).
+Eval vm_compute in ("<<<M1772>>>" ++ check (runes_of_ascii "MetaData  float 
+{
+	float64	charz  `
+`, 
+} root
+	packet
 
-len
+chars  
+  // c
+{
+@rightPad (
+    '0'
 
-`// not a comment`
+)
+	Foo
+    ,
+    }
+")).
+Eval vm_compute in ("<<<M1597>>>" ++ check (runes_of_ascii "packet
+o
+    {
+	repeat Logon 
+uint8x, }
+	options  // c
+	{asx 
+=
 
-,  } ")).
-Eval vm_compute in ("<<<M2988>>>" ++ check (runes_of_ascii "packet A {
-  match k as n {
-    [1, 22, 007, 4, 5, 66, 7, 8, 9, 10, 11, 12] : B,
-    2 : C
-  },
-}")).
-Eval vm_compute in ("<<<M2302>>>" ++ check (runes_of_ascii "options
-{ } options { BodyLength= u16 Header= f64 ; u128 =
-    true
-    ; } // a // b@leftpad")).
-Eval vm_compute in ("<<<M2239>>>" ++ check (runes_of_ascii "options
-{ } options { BodyLength string u16 Header= f64 ; u128 =
-    true
-    ; } // a // b")).
-Eval vm_compute in ("<<<M2299>>>" ++ check (runes_of_ascii "options
-{ } options { BodyLength= u1@tag6 Header= f64 ; u128 =
-    true
-    ; } // a // b")).
-Eval vm_compute in ("<<<M3277>>>" ++ check (runes_of_ascii "MetaData float { float64 charz // c
+zchar[ 3 ]
+    stringy  =
+
+    '\x00'
+}
+
+")).
+Eval vm_compute in ("<<<M459>>>" ++ check (runes_of_ascii "packet
+    // `tick` ""quote"" 'q'
+    crc
+// packet A { u8 x, }
+//	t
+{
+u32 a1 ,
+    // trailing space 
+    ")).
+Eval vm_compute in ("<<<M1875>>>" ++ check (runes_of_ascii "  MetaData
+float {	float64
+charz 
 `
-` , } root packet chars { @rightPad ( '0' ) Foo , }")).
-Eval vm_compute in ("<<<M3488>>>" ++ check (runes_of_ascii "packet chars
-// c
-{ } packet MetaDataX { @tag( 42 ) i16 string_ , repeat x `say ""hi""` , }")).
-Eval vm_compute in ("<<<M3984>>>" ++ check (runes_of_ascii "MetaData body {
-    i64 pack `it's`,
-}
-
-packet stringy {
-    int16 calculatedFrom,
-}
-// c")).
-Eval vm_compute in ("<<<M2264>>>" ++ check (runes_of_ascii "options
-{ } options { BodyLength= u16 Header= f64 i8 u128 =
-    true
-    ; } // a // b")).
-Eval vm_compute in ("<<<M2214>>>" ++ check (runes_of_ascii "options
-} { options { BodyLength= u16 Header= f64 ; u128 =
-    true
-    ; } // a // b")).
-Eval vm_compute in ("<<<M3228>>>" ++ check (runes_of_ascii "packet metadata { Logon { A `" ++ [28040; 24687; 31867; 22411]%N ++ runes_of_ascii "` ,
-// c
-tag o , } , zchar len `// not a comment` , }")).
-Eval vm_compute in ("<<<M2251>>>" ++ check (runes_of_ascii "options
-{ } options { BodyLength= u16 Header f64 ; u128 =
-    true
-    ; } // a // b")).
-Eval vm_compute in ("<<<M3451>>>" ++ check (runes_of_ascii "packet o { repeat Logon uint8x , } options { asx = // c
-zchar[ 3 ] stringy = '\x00' }")).
-Eval vm_compute in ("<<<M147>>>" ++ check (runes_of_ascii "packet
-    zchar { @lengthOf(Header )f32 string_ `a\`
-    , } // packet A { u8 x, }")).
-Eval vm_compute in ("<<<M3394>>>" ++ check (runes_of_ascii "MetaData // c
-body { i64 pack `it's` , } packet stringy { int16 calculatedFrom , }")).
-Eval vm_compute in ("<<<M4522>>>" ++ check (runes_of_ascii "
-packet A  {match
-k
-    as  n
-{
-
-    [
-    1  , ""bb""	]
-:  B ,	2 :
-	C
-} 
-,  }
-")).
-Eval vm_compute in ("<<<M1331>>>" ++ check (runes_of_ascii "MetaData  options1
-    { i8 falsey ,
-    int8  Foo `
-` , }
-root packet asx{} 	 ")).
-Eval vm_compute in ("<<<M778>>>" ++ check (runes_of_ascii "options {repeatCount
-= int64 u8x =
-//	t
-// packet A { u8 x, }
-' '
-;
-}
-// " ++ [27880; 37322]%N ++ runes_of_ascii "
-")).
-Eval vm_compute in ("<<<M63>>>" ++ check (runes_of_ascii "MetaData
-    Packet { string Logon `" ++ [233]%N ++ runes_of_ascii "`
+`  // c
 ,
-    int8
-    _x
-//	t
-// " ++ [27880; 37322]%N ++ runes_of_ascii "
-,
-}
+    }
+    root
+packet 
+chars {	@rightPad
+('0' )Foo
+, }")).
+Eval vm_compute in ("<<<M26>>>" ++ check (runes_of_ascii "options // " ++ [27880; 37322]%N ++ runes_of_ascii "
+{Packet = 4294967296
+; i64_  = // c
+""1"" ;	Z9_ = ""abc"" ; options1 =
+""a\\""
+; o=0  ; }")).
+Eval vm_compute in ("<<<M1960>>>" ++ check (runes_of_ascii "
+packet pack	{
+repeat As
+	{
+
+char[
+65535 	 // trailing space 
+  ]
+crc `crlf
+line`
+
+,}
+
+,}
+")).
+Eval vm_compute in ("<<<M382>>>" ++ check (runes_of_ascii "root packet SimpleMessage {
+    uint16 MsgType `" ++ [28040; 24687; 31867; 22411]%N ++ runes_of_ascii "`,
+    string JsonBody `Json" ++ [23383; 31526; 20018; 28040; 24687; 20307]%N ++ runes_of_ascii "`,
+}")).
+Eval vm_compute in ("<<<M1191>>>" ++ check (runes_of_ascii "MetaData float { float64 charz `
+`
+// c
+, } root packet chars { @rightPad ( '0' ) Foo , }")).
+Eval vm_compute in ("<<<M1402>>>" ++ check (runes_of_ascii "packet chars { } // c
+packet MetaDataX { @tag( 42 ) i16 string_ , repeat x `say ""hi""` , }")).
+Eval vm_compute in ("<<<M16>>>" ++ check (runes_of_ascii "packet Z9_// packet A { u8 x, }
+{ @tag(
+4294967296 )uint8x@calculatedFrom( ""abc"" ), }
 
 ")).
-Eval vm_compute in ("<<<M355>>>" ++ check (runes_of_ascii "options { leftPad= int32 // packet A { u8 x, }
-}
-// packet A { u8 x, }
-")).
-Eval vm_compute in ("<<<M1382>>>" ++ check (runes_of_ascii "options
-{	trueish = f64
-    ;
-i8i8  =
-int16 ;rootA = ""`tick`"" ;} 	 ")).
-Eval vm_compute in ("<<<M3574>>>" ++ check (runes_of_ascii "root packet P {
+Eval vm_compute in ("<<<M1132>>>" ++ check (runes_of_ascii "packet metadata { Logon { // c
+A `" ++ [28040; 24687; 31867; 22411]%N ++ runes_of_ascii "` , tag o , } , zchar len `// not a comment` , }")).
+Eval vm_compute in ("<<<M860>>>" ++ check (runes_of_ascii "packet A {
+  match k as n {
+    [1, 22, 007, 4, 5, 66, 7, 8, 9] : B,
+    2 : C
+  },
+}")).
+Eval vm_compute in ("<<<M1369>>>" ++ check (runes_of_ascii "packet o { repeat Logon uint8x , } options { asx = zchar[ 3 ]
+// c
+stringy = '\x00' }")).
+Eval vm_compute in ("<<<M2025>>>" ++ check (runes_of_ascii "packet A {
+    match k as n {
+        [""a"", ""bb"", 007] : B,
+        2 : C,
+    },
+}")).
+Eval vm_compute in ("<<<M1330>>>" ++ check (runes_of_ascii "MetaData body { i64 pack `it's` , } packet stringy { int16 calculatedFrom
+// c
+, }")).
+Eval vm_compute in ("<<<M1607>>>" ++ check (runes_of_ascii "root packet repeatCount {
+    msg_type {
+        float64 lengthOf `" ++ [233]%N ++ runes_of_ascii "`,
+    },
+}")).
+Eval vm_compute in ("<<<M817>>>" ++ check (runes_of_ascii "packet A {
+  match k as n {
+    [1, 22, ""c c"", 4, 5] : B
+    2 : C
+  },
+}")).
+Eval vm_compute in ("<<<M795>>>" ++ check (runes_of_ascii "packet A {
+  match k as n {
+    [1, 22, 007, 4] : B,
+    2 : C
+  },
+}")).
+Eval vm_compute in ("<<<M2098>>>" ++ check (runes_of_ascii "root packet P {
     u8 s_u8,
     repeat u8 r_u8,
     u16 b_len,
-}
-")).
-Eval vm_compute in ("<<<M1909>>>" ++ check (runes_of_ascii "MetaData
-    u { }  options {
-// c
-// @lengthOf(
-float = int8 ;")).
-Eval vm_compute in ("<<<M2862>>>" ++ check (runes_of_ascii "packet A {
-  match k as n {
-    [1, 22] : B,
-    2 : C
-  },
 }")).
-Eval vm_compute in ("<<<M498>>>" ++ check (runes_of_ascii "options
-{
-//x
-// c
-} options
-    {
-Foo
-    = ""`tick`"" }
-")).
-Eval vm_compute in ("<<<M3385>>>" ++ check (runes_of_ascii "packet x { @rightPad ( ) repeat roots Logon `doc` , // c
+Eval vm_compute in ("<<<M142>>>" ++ check (runes_of_ascii "options // `tick` ""quote"" 'q'
+{ repeatCount = 3/// triple
 }")).
-Eval vm_compute in ("<<<M410>>>" ++ check (runes_of_ascii "packet crc { @rightPad ('0'
-) //x
-char[] asx `doc`	,}
-")).
-Eval vm_compute in ("<<<M995>>>" ++ check (runes_of_ascii "options
-{ Header
+Eval vm_compute in ("<<<M1290>>>" ++ check (runes_of_ascii "packet x { @rightPad ( ) repeat roots // c
+Logon `doc` , }")).
+Eval vm_compute in ("<<<M1073>>>" ++ check (runes_of_ascii "// a
+MetaData M {} // b
+// c
+MetaData N {} // d
+// e")).
+Eval vm_compute in ("<<<M1998>>>" ++ check (runes_of_ascii "root packet u128 {
+    chars `it's`,
     // c
-    =""a	b"" ;  } // a // b")).
-Eval vm_compute in ("<<<M3868>>>" ++ check (runes_of_ascii "  MetaData
-leftPad 	 // `tick` ""quote"" 'q'
-
-	{} ")).
-Eval vm_compute in ("<<<M85>>>" ++ check (runes_of_ascii "
-MetaData f32a { char[ 42
-    ] zchar
-, //x
 }")).
-Eval vm_compute in ("<<<M2563>>>" ++ check (runes_of_ascii "packet A { repeat x @calculatedFrom(""c""), }")).
-Eval vm_compute in ("<<<M3203>>>" ++ check (runes_of_ascii "root packet u128 { chars `it's` , } // c
-")).
-Eval vm_compute in ("<<<M4167>>>" ++ check (runes_of_ascii "options {
-    Header = ""a	b"";
-}// a // b")).
-Eval vm_compute in ("<<<M2608>>>" ++ check (runes_of_ascii "packet A { match k as n { [] : B }, }")).
-Eval vm_compute in ("<<<M311>>>" ++ check (runes_of_ascii "  options {
-    asx =
-    '0'
-;}
-")).
-Eval vm_compute in ("<<<M2707>>>" ++ check (runes_of_ascii ")1g5_\^|d<j.^kB#_~;!UCf%63fU|C}lDJ")).
-Eval vm_compute in ("<<<M1336>>>" ++ check (runes_of_ascii "root
-    packet
-chars
-{
+Eval vm_compute in ("<<<M2044>>>" ++ check (runes_of_ascii "// top
+root packet pack {
+    // c3
+}// c4")).
+Eval vm_compute in ("<<<M240>>>" ++ check (runes_of_ascii "
+packet Header{ char[] body
 //x
 //
-}")).
-Eval vm_compute in ("<<<M4151>>>" ++ check (runes_of_ascii "packet A {
-    // a
-    u8 x,
-}")).
-Eval vm_compute in ("<<<M3160>>>" ++ check (runes_of_ascii "MetaData M {
-}// c
-packet A {}")).
-Eval vm_compute in ("<<<M4171>>>" ++ check (runes_of_ascii "options
-	{
-    a
-    = 1
+, }
+")).
+Eval vm_compute in ("<<<M135>>>" ++ check (runes_of_ascii "MetaData pack { f64 A `{ , }` ,}
 
-} ")).
-Eval vm_compute in ("<<<M2578>>>" ++ check (runes_of_ascii "packet A { u8 x `d` `e`, }")).
-Eval vm_compute in ("<<<M3259>>>" ++ check (runes_of_ascii "root packet pack
+")).
+Eval vm_compute in ("<<<M41>>>" ++ check (runes_of_ascii "MetaData crc
+{ } // @lengthOf(")).
+Eval vm_compute in ("<<<M1612>>>" ++ check (runes_of_ascii "  packet
+    A  {
+	} 	 // c" ++ [160]%N)).
+Eval vm_compute in ("<<<M1172>>>" ++ check (runes_of_ascii "root packet pack {
 // c
-{ }")).
-Eval vm_compute in ("<<<M2577>>>" ++ check (runes_of_ascii "packet A { x `d` `e`, }")).
-Eval vm_compute in ("<<<M2705>>>" ++ check (runes_of_ascii "u64 MetaData char , ]")).
-Eval vm_compute in ("<<<M4588>>>" ++ check (runes_of_ascii "root packet pack {
 }")).
-Eval vm_compute in ("<<<M3475>>>" ++ check (runes_of_ascii "MetaData o
-// c
-{ }")).
-Eval vm_compute in ("<<<M3101>>>" ++ check (runes_of_ascii "// c" ++ [8233]%N ++ runes_of_ascii "
-packet A {
-}")).
-Eval vm_compute in ("<<<M2656>>>" ++ check (runes_of_ascii "options { a = 1 }")).
-Eval vm_compute in ("<<<M2654>>>" ++ check (runes_of_ascii "MetaData M M { }")).
-Eval vm_compute in ("<<<M183>>>" ++ check (runes_of_ascii "packet T
-{}
+Eval vm_compute in ("<<<M1381>>>" ++ check (runes_of_ascii "// c
+MetaData o { }")).
+Eval vm_compute in ("<<<M1021>>>" ++ check (runes_of_ascii "packet A {
+}
+// c" ++ [8287]%N)).
+Eval vm_compute in ("<<<M1029>>>" ++ check (runes_of_ascii "packet A {
+}// c" ++ [12]%N)).
+Eval vm_compute in ("<<<M2039>>>" ++ check (runes_of_ascii "  // c" ++ [12288]%N ++ runes_of_ascii "
 ")).
-Eval vm_compute in ("<<<M2093>>>" ++ check (runes_of_ascii "options{
-_x")).
-Eval vm_compute in ("<<<M2465>>>" ++ check (runes_of_ascii "Metadata")).
-Eval vm_compute in ("<<<M2428>>>" ++ check (runes_of_ascii "char [")).
-Eval vm_compute in ("<<<M2467>>>" ++ check (runes_of_ascii "match")).
-Eval vm_compute in ("<<<M1021>>>" ++ check (runes_of_ascii "
-
-
-")).
-Eval vm_compute in ("<<<M2471>>>" ++ check (runes_of_ascii "'0'")).
-Eval vm_compute in ("<<<M476>>>" ++ check (runes_of_ascii "
-")).
-Eval vm_compute in ("<<<M2557>>>" ++ check ([21517]%N)).
+Eval vm_compute in ("<<<M1040>>>" ++ check (runes_of_ascii "// c" ++ [8203]%N)).
